@@ -1,11 +1,2510 @@
-//! C14 — not implemented yet (stub).
-use crate::engine::Ctx;
-use serde_json::Value;
+//! C14 — parameter construction is order-independent and faithful to its records.
+//!
+//! Parts: `files` (synthetic JSON files, sampled), `files-exhaustive` (every ordered subset up
+//! to size 4 of a 5-record file, lattice), `shipped` (random ordered queries against the shipped
+//! files), `gc` (group contribution combining rules), `serde` (record round trips).
+use crate::engine::{verif_root, Ctx, Gen, Obs, PanicPolicy, PartCfg};
+use crate::model::params_dir;
+use feos::core::cubic::{PengRobinson, PengRobinsonParameters};
+use feos::core::parameter::{
+    BinaryRecord, ChemicalRecord, Identifier, IdentifierOption, Parameter, ParameterError,
+    ParameterHetero, PureRecord, SegmentRecord,
+};
+use feos::core::{Contributions, IdealGas, ReferenceSystem, Residual, State};
+use feos::epcsaft::{ElectrolytePcSaft, ElectrolytePcSaftParameters};
+use feos::gc_pcsaft::{
+    GcPcSaft, GcPcSaftEosParameters, GcPcSaftFunctional, GcPcSaftFunctionalParameters,
+    GcPcSaftRecord,
+};
+use feos::ideal_gas::{Dippr, Joback, JobackRecord};
+use feos::pcsaft::{PcSaft, PcSaftParameters, PcSaftRecord};
+use feos::pets::{Pets, PetsParameters};
+use feos::saftvrmie::{SaftVRMie, SaftVRMieParameters};
+use feos::saftvrqmie::{SaftVRQMie, SaftVRQMieParameters};
+use feos::uvtheory::{UVTheory, UVTheoryParameters};
+use feos::ResidualModel;
+use ndarray::{Array1, Array2};
+use quantity::*;
+use serde::de::DeserializeOwned;
+use serde::{Deserialize, Serialize};
+use serde_json::{json, Value};
+use std::collections::hash_map::DefaultHasher;
+use std::collections::{BTreeMap, HashMap};
+use std::hash::{Hash, Hasher};
+use std::path::{Path, PathBuf};
+use std::sync::{Arc, LazyLock, Mutex};
 
-pub fn run(_ctx: &Ctx) {
-    panic!("C14: check not implemented yet");
+// ---------------------------------------------------------------------------------------
+// common
+// ---------------------------------------------------------------------------------------
+pub const KINDS: [&str; 6] = ["cas", "name", "iupac_name", "smiles", "inchi", "formula"];
+
+fn opt_of(kind: &str) -> IdentifierOption {
+    match kind {
+        "cas" => IdentifierOption::Cas,
+        "name" => IdentifierOption::Name,
+        "iupac_name" => IdentifierOption::IupacName,
+        "smiles" => IdentifierOption::Smiles,
+        "inchi" => IdentifierOption::Inchi,
+        _ => IdentifierOption::Formula,
+    }
 }
 
-pub fn replay(_ctx: &Ctx, _part: &str, _case: &Value) -> bool {
-    panic!("C14: check not implemented yet");
+#[derive(Serialize, Deserialize, Clone, Copy, Debug, PartialEq, Eq, Hash)]
+pub enum Fam {
+    PcSaft,
+    EPcSaft,
+    VrMie,
+    Vrq,
+    Pets,
+    Uv,
+    Joback,
+    Dippr,
+}
+pub const FAMS: [Fam; 8] = [Fam::PcSaft, Fam::EPcSaft, Fam::VrMie, Fam::Vrq, Fam::Pets, Fam::Uv, Fam::Joback, Fam::Dippr];
+
+/// a state at which model behaviour is compared: T in K, fraction of the maximum density,
+/// unnormalised composition weights (first n used)
+#[derive(Serialize, Deserialize, Clone, Debug)]
+pub struct Probe {
+    pub t: f64,
+    pub f_eta: f64,
+    pub x: Vec<f64>,
+}
+
+fn gen_probes(g: &mut Gen, cold: bool) -> Vec<Probe> {
+    (0..3)
+        .map(|_| Probe {
+            t: if cold { r6(g.range(20.0, 120.0)) } else { r6(g.range(250.0, 600.0)) },
+            f_eta: r6(g.log_range(1e-3, 0.8)),
+            x: (0..4).map(|_| r6(g.range(0.05, 1.0))).collect(),
+        })
+        .collect()
+}
+
+/// round to 6 significant digits (decimal strings of that length are parsed exactly)
+fn r6(x: f64) -> f64 {
+    format!("{x:.5e}").parse().unwrap()
+}
+
+/// Per-case scratch files under $VERIF_ROOT/work/c14-p<pid>/, every file name prefixed with the
+/// hash of the case and the thread id; the files are removed when the case ends (Drop), the
+/// directory when the run / replay ends. (One directory per case was measured at 3.6 ms per
+/// `rmdir` on the CI file system - 80 % of the wall time - whereas unlinking files is free.)
+fn scratch_root() -> PathBuf {
+    verif_root().join("work").join(format!("c14-p{}", std::process::id()))
+}
+fn remove_scratch_root() {
+    let _ = std::fs::remove_dir(scratch_root());
+}
+struct WorkDir {
+    prefix: String,
+    files: std::cell::RefCell<Vec<PathBuf>>,
+}
+impl WorkDir {
+    fn new<C: Serialize>(case: &C) -> Self {
+        let mut h = DefaultHasher::new();
+        serde_json::to_string(case).unwrap_or_default().hash(&mut h);
+        let tid: String = format!("{:?}", std::thread::current().id()).chars().filter(|c| c.is_ascii_digit()).collect();
+        WorkDir { prefix: format!("{:016x}-t{tid}", h.finish()), files: Default::default() }
+    }
+    /// write a JSON array; return the path and the values as the library will read them
+    fn write(&self, name: &str, recs: &[Value]) -> (PathBuf, Vec<Value>) {
+        let p = scratch_root().join(format!("{}-{name}", self.prefix));
+        let text = serde_json::to_string_pretty(recs).unwrap();
+        let mut res = Ok(());
+        for _ in 0..3 {
+            let _ = std::fs::create_dir_all(scratch_root());
+            res = std::fs::write(&p, &text);
+            if res.is_ok() {
+                break;
+            }
+        }
+        res.expect("write scratch file");
+        self.files.borrow_mut().push(p.clone());
+        (p, serde_json::from_str(&text).unwrap())
+    }
+}
+impl Drop for WorkDir {
+    fn drop(&mut self) {
+        for f in self.files.borrow().iter() {
+            let _ = std::fs::remove_file(f);
+        }
+    }
+}
+
+static WORST_FP: Mutex<f64> = Mutex::new(0.0);
+static WORST_GC: Mutex<f64> = Mutex::new(0.0);
+static WORST_GC_FP: Mutex<f64> = Mutex::new(0.0);
+static WORST_GC_FP_ASSOC: Mutex<f64> = Mutex::new(0.0);
+fn track(m: &Mutex<f64>, v: f64) {
+    let mut g = m.lock().unwrap();
+    if v.is_finite() && v > *g {
+        *g = v;
+    }
+}
+
+/// behaviour fingerprint of a residual model at the probes
+fn fp_residual(model: ResidualModel, n: usize, probes: &[Probe]) -> Vec<f64> {
+    let eos = Arc::new(model);
+    let mut out = vec![];
+    for pr in probes {
+        let w: Vec<f64> = pr.x.iter().cycle().take(n).copied().collect();
+        let s: f64 = w.iter().sum();
+        let moles = Array1::from_vec(w.iter().map(|v| v / s).collect()) * MOL;
+        let Ok(rho_max) = eos.max_density(Some(&moles)) else {
+            out.push(f64::NAN);
+            continue;
+        };
+        let v = moles.sum() / (pr.f_eta * rho_max);
+        match State::new_nvt(&eos, pr.t * KELVIN, v, &moles) {
+            Ok(st) => {
+                out.push(st.residual_molar_helmholtz_energy().to_reduced());
+                out.push(st.pressure(Contributions::Total).to_reduced());
+                out.extend(st.residual_chemical_potential().to_reduced().iter());
+            }
+            Err(_) => out.push(f64::NAN),
+        }
+    }
+    out
+}
+
+fn fp_ideal<I: IdealGas>(ig: &I, probes: &[Probe]) -> Vec<f64> {
+    let mut out = vec![];
+    for pr in probes {
+        out.extend(ig.ln_lambda3(pr.t).iter());
+        out.extend(ig.ln_lambda3(2.0 * pr.t).iter());
+    }
+    out
+}
+
+/// compare two fingerprints; `tol` relative to the larger of the pair and of 1e-3 x the
+/// largest entry (entries that cancel to ~0)
+fn cmp_fp(obs: &mut Obs, what: &str, a: &[f64], b: &[f64], tol: f64, worst: &Mutex<f64>) {
+    obs.count();
+    if a.len() != b.len() {
+        obs.fail(format!("{what}: fingerprints have different length {} vs {}", a.len(), b.len()));
+        return;
+    }
+    let big = a.iter().chain(b).filter(|v| v.is_finite()).fold(0.0f64, |m, v| m.max(v.abs()));
+    for (k, (u, v)) in a.iter().zip(b).enumerate() {
+        // unphysical generated molecules (e.g. group tables with negative m contributions) make
+        // the model overflow: such entries carry no information
+        let degenerate = |x: f64| !x.is_finite() || x.abs() > 1e30;
+        let moderate = |x: f64| x.is_finite() && x.abs() < 1e10;
+        if (degenerate(*u) && !moderate(*v)) || (degenerate(*v) && !moderate(*u)) {
+            obs.class("behaviour:overflowing-model-entry-skipped");
+            continue;
+        }
+        let sc = u.abs().max(v.abs()).max(1e-3 * big).max(1e-300);
+        let d = (u - v).abs() / sc;
+        track(worst, d);
+        if !(d <= tol) {
+            obs.fail(format!("{what}: behaviour differs at entry {k}: {u:e} vs {v:e} (rel {d:e} > {tol:e})"));
+            return;
+        }
+    }
+}
+
+/// `cmp_fp`, routed to the ePC-SAFT ion finding when `known` (signature decided by the caller):
+/// the ion self-interaction k_ii = 1 is only applied when a binary matrix is supplied
+/// (src/epcsaft/parameters.rs:401-424)
+fn cmp_fp_ion(obs: &mut Obs, what: &str, a: &[f64], b: &[f64], known: bool) {
+    if !known {
+        return cmp_fp(obs, what, a, b, TOL_FP, &WORST_FP);
+    }
+    let mut o2 = Obs::default();
+    cmp_fp(&mut o2, what, a, b, TOL_FP, &Mutex::new(0.0));
+    obs.comparisons += o2.comparisons;
+    for m in o2.fails {
+        obs.known_or_fail("C14/epcsaft-ion-self-kij-only-with-binary-matrix", m);
+    }
+}
+
+type Fields = BTreeMap<String, Vec<f64>>;
+fn flat(a: &Array2<f64>) -> Vec<f64> {
+    a.iter().copied().collect()
+}
+
+/// the real parameter types behind one interface
+pub trait FamP: Parameter + Sized {
+    fn behaviour(self, probes: &[Probe]) -> Vec<f64>;
+    fn fields(&self) -> Fields;
+}
+
+fn ncomp<P: Parameter>(p: &P) -> usize {
+    p.records().0.len()
+}
+
+impl FamP for PcSaftParameters {
+    fn behaviour(self, probes: &[Probe]) -> Vec<f64> {
+        let n = ncomp(&self);
+        fp_residual(ResidualModel::PcSaft(PcSaft::new(Arc::new(self))), n, probes)
+    }
+    fn fields(&self) -> Fields {
+        let mut f = Fields::new();
+        f.insert("molarweight".into(), self.molarweight.to_vec());
+        f.insert("m".into(), self.m.to_vec());
+        f.insert("sigma".into(), self.sigma.to_vec());
+        f.insert("epsilon_k".into(), self.epsilon_k.to_vec());
+        f.insert("mu".into(), self.mu.to_vec());
+        f.insert("q".into(), self.q.to_vec());
+        f.insert("k_ij".into(), flat(&(1.0 - &self.epsilon_k_ij / &self.e_k_ij)));
+        f
+    }
+}
+impl FamP for ElectrolytePcSaftParameters {
+    fn behaviour(self, probes: &[Probe]) -> Vec<f64> {
+        let n = ncomp(&self);
+        // shipped permittivity correlations: 280-370 K
+        let pr: Vec<Probe> = probes.iter().map(|p| Probe { t: 280.0 + (p.t - 250.0) / 350.0 * 90.0, ..p.clone() }).collect();
+        fp_residual(ResidualModel::ElectrolytePcSaft(ElectrolytePcSaft::new(Arc::new(self))), n, &pr)
+    }
+    fn fields(&self) -> Fields {
+        let mut f = Fields::new();
+        f.insert("molarweight".into(), self.molarweight.to_vec());
+        f.insert("m".into(), self.m.to_vec());
+        f.insert("sigma".into(), self.sigma.to_vec());
+        f.insert("epsilon_k".into(), self.epsilon_k.to_vec());
+        f.insert("z".into(), self.z.to_vec());
+        for k in 0..4 {
+            f.insert(format!("k_ij{k}"), self.k_ij.iter().map(|v| v[k]).collect());
+        }
+        // permittivity of component i is the (T-sorted) record of component i
+        let perm: Vec<Value> = self.permittivity.iter().map(|p| serde_json::to_value(p).unwrap()).collect();
+        f.insert(
+            "permittivity_points".into(),
+            perm.iter().map(|p| p["ExperimentalData"]["data"].as_array().map(|a| a.len() as f64).unwrap_or(0.0)).collect(),
+        );
+        f.insert(
+            "permittivity_sum".into(),
+            perm.iter()
+                .map(|p| {
+                    p["ExperimentalData"]["data"]
+                        .as_array()
+                        .map(|a| a.iter().map(|tv| tv[0].as_f64().unwrap_or(0.0) + tv[1].as_f64().unwrap_or(0.0)).sum())
+                        .unwrap_or(0.0)
+                })
+                .collect(),
+        );
+        f
+    }
+}
+impl FamP for SaftVRMieParameters {
+    fn behaviour(self, probes: &[Probe]) -> Vec<f64> {
+        let n = ncomp(&self);
+        fp_residual(ResidualModel::SaftVRMie(SaftVRMie::new(Arc::new(self))), n, probes)
+    }
+    fn fields(&self) -> Fields {
+        let mut f = Fields::new();
+        f.insert("molarweight".into(), self.molarweight.to_vec());
+        f.insert("m".into(), self.m.to_vec());
+        f.insert("sigma".into(), self.sigma.to_vec());
+        f.insert("epsilon_k".into(), self.epsilon_k.to_vec());
+        f.insert("lr".into(), self.lr.to_vec());
+        f.insert("la".into(), self.la.to_vec());
+        f.insert("k_ij".into(), flat(&(1.0 - &self.epsilon_k_ij / &self.e_k_ij)));
+        let n = self.m.len();
+        let g = Array2::from_shape_fn((n, n), |(i, j)| 1.0 - (self.lr_ij[(i, j)] - 3.0) / ((self.lr[i] - 3.0) * (self.lr[j] - 3.0)).sqrt());
+        f.insert("gamma_ij".into(), flat(&g));
+        f
+    }
+}
+impl FamP for SaftVRQMieParameters {
+    fn behaviour(self, probes: &[Probe]) -> Vec<f64> {
+        let n = ncomp(&self);
+        fp_residual(ResidualModel::SaftVRQMie(SaftVRQMie::new(Arc::new(self))), n, probes)
+    }
+    fn fields(&self) -> Fields {
+        let mut f = Fields::new();
+        f.insert("molarweight".into(), self.molarweight.to_vec());
+        f.insert("m".into(), self.m.to_vec());
+        f.insert("sigma".into(), self.sigma.to_vec());
+        f.insert("epsilon_k".into(), self.epsilon_k.to_vec());
+        f.insert("lr".into(), self.lr.to_vec());
+        f.insert("la".into(), self.la.to_vec());
+        f.insert("fh".into(), self.fh.iter().map(|&v| v as f64).collect());
+        f.insert("k_ij".into(), flat(&self.k_ij));
+        f.insert("l_ij".into(), flat(&self.l_ij));
+        f
+    }
+}
+impl FamP for PetsParameters {
+    fn behaviour(self, probes: &[Probe]) -> Vec<f64> {
+        let n = ncomp(&self);
+        fp_residual(ResidualModel::Pets(Pets::new(Arc::new(self))), n, probes)
+    }
+    fn fields(&self) -> Fields {
+        let mut f = Fields::new();
+        let n = self.sigma.len();
+        f.insert("molarweight".into(), self.molarweight.to_vec());
+        f.insert("sigma".into(), self.sigma.to_vec());
+        f.insert("epsilon_k".into(), self.epsilon_k.to_vec());
+        f.insert("k_ij".into(), self.k_ij.as_ref().map(flat).unwrap_or(vec![0.0; n * n]));
+        f
+    }
+}
+impl FamP for UVTheoryParameters {
+    fn behaviour(self, probes: &[Probe]) -> Vec<f64> {
+        let n = ncomp(&self);
+        fp_residual(ResidualModel::UVTheory(UVTheory::new(Arc::new(self))), n, probes)
+    }
+    fn fields(&self) -> Fields {
+        let mut f = Fields::new();
+        let n = self.sigma.len();
+        f.insert("molarweight".into(), self.molarweight.to_vec());
+        f.insert("rep".into(), self.rep.to_vec());
+        f.insert("att".into(), self.att.to_vec());
+        f.insert("sigma".into(), self.sigma.to_vec());
+        f.insert("epsilon_k".into(), self.epsilon_k.to_vec());
+        f.insert("k_ij".into(), self.k_ij.as_ref().map(flat).unwrap_or(vec![0.0; n * n]));
+        f
+    }
+}
+impl FamP for Joback {
+    fn behaviour(self, probes: &[Probe]) -> Vec<f64> {
+        fp_ideal(&self, probes)
+    }
+    fn fields(&self) -> Fields {
+        Fields::new()
+    }
+}
+impl FamP for Dippr {
+    fn behaviour(self, probes: &[Probe]) -> Vec<f64> {
+        fp_ideal(&self, probes)
+    }
+    fn fields(&self) -> Fields {
+        Fields::new()
+    }
+}
+impl FamP for PengRobinsonParameters {
+    fn behaviour(self, probes: &[Probe]) -> Vec<f64> {
+        let n = ncomp(&self);
+        fp_residual(ResidualModel::PengRobinson(PengRobinson::new(Arc::new(self))), n, probes)
+    }
+    fn fields(&self) -> Fields {
+        Fields::new()
+    }
+}
+
+/// expected public fields from the expected records (harness side)
+fn expected_fields(pure: &[Value], bin: &[Vec<Option<Value>>], keys: &Fields) -> Fields {
+    let n = pure.len();
+    let mut f = Fields::new();
+    for k in keys.keys() {
+        let v: Vec<f64> = match k.as_str() {
+            "molarweight" => pure.iter().map(|r| r["molarweight"].as_f64().unwrap_or(0.0)).collect(),
+            "m" | "sigma" | "epsilon_k" | "lr" | "la" | "rep" | "att" | "mu" | "q" | "z" | "fh" => {
+                pure.iter().map(|r| r["model_record"][k.as_str()].as_f64().unwrap_or(0.0)).collect()
+            }
+            "k_ij" | "l_ij" | "gamma_ij" => (0..n * n)
+                .map(|t| bin[t / n][t % n].as_ref().and_then(|b| b[k.as_str()].as_f64()).unwrap_or(0.0))
+                .collect(),
+            "k_ij0" | "k_ij1" | "k_ij2" | "k_ij3" => {
+                let c: usize = k[4..].parse().unwrap();
+                (0..n * n)
+                    .map(|t| bin[t / n][t % n].as_ref().and_then(|b| b["k_ij"].get(c)).and_then(|x| x.as_f64()).unwrap_or(0.0))
+                    .collect()
+            }
+            "permittivity_points" => pure
+                .iter()
+                .map(|r| r["model_record"]["permittivity_record"]["ExperimentalData"]["data"].as_array().map(|a| a.len() as f64).unwrap_or(0.0))
+                .collect(),
+            "permittivity_sum" => pure
+                .iter()
+                .map(|r| {
+                    r["model_record"]["permittivity_record"]["ExperimentalData"]["data"]
+                        .as_array()
+                        .map(|a| a.iter().map(|tv| tv[0].as_f64().unwrap_or(0.0) + tv[1].as_f64().unwrap_or(0.0)).sum())
+                        .unwrap_or(0.0)
+                })
+                .collect(),
+            _ => continue,
+        };
+        f.insert(k.clone(), v);
+    }
+    f
+}
+
+fn err_kind(e: &ParameterError) -> &'static str {
+    match e {
+        ParameterError::FileIO(_) => "FileIO",
+        ParameterError::Serde(_) => "Serde",
+        ParameterError::ComponentsNotFound(_) => "ComponentsNotFound",
+        ParameterError::IdentifierNotFound(_) => "IdentifierNotFound",
+        ParameterError::InsufficientInformation => "InsufficientInformation",
+        ParameterError::IncompatibleParameters(_) => "IncompatibleParameters",
+    }
+}
+
+// ---------------------------------------------------------------------------------------
+// reference model of from_json / from_multiple_json
+// ---------------------------------------------------------------------------------------
+#[derive(Debug)]
+enum Expect {
+    Ok {
+        pure: Vec<Value>,
+        /// n x n, None = documented default
+        binary: Vec<Vec<Option<Value>>>,
+        /// (file, position in file) of every component
+        pos: Vec<(usize, usize)>,
+        reversed_used: bool,
+        binary_used: usize,
+    },
+    Dup,
+    Missing,
+    DupAndMissing,
+    /// the queried string matches several records of a file: outside the property
+    Ambiguous,
+}
+
+fn id_str(ident: &Value, kind: &str) -> Option<String> {
+    ident.get(kind).and_then(|s| s.as_str()).map(|s| s.to_string())
+}
+
+fn reference(files: &[&[Value]], binary: Option<&[Value]>, query: &[(usize, Vec<String>)], kind: &str) -> Expect {
+    let all: Vec<&String> = query.iter().flat_map(|(_, q)| q.iter()).collect();
+    let mut dup = false;
+    for (i, a) in all.iter().enumerate() {
+        if all[..i].contains(a) {
+            dup = true;
+        }
+    }
+    let mut pure = vec![];
+    let mut pos = vec![];
+    let mut missing = false;
+    let mut ambiguous = false;
+    for (f, qs) in query {
+        // duplicates inside one list are rejected before the file is read
+        for q in qs {
+            let hits: Vec<usize> = files[*f]
+                .iter()
+                .enumerate()
+                .filter(|(_, r)| id_str(&r["identifier"], kind).as_deref() == Some(q.as_str()))
+                .map(|(i, _)| i)
+                .collect();
+            match hits.len() {
+                0 => missing = true,
+                1 => {
+                    pure.push(files[*f][hits[0]].clone());
+                    pos.push((*f, hits[0]));
+                }
+                _ => ambiguous = true,
+            }
+        }
+    }
+    match (dup, missing) {
+        (true, true) => return Expect::DupAndMissing,
+        (true, false) => return Expect::Dup,
+        (false, true) => return Expect::Missing,
+        _ => {}
+    }
+    if ambiguous {
+        return Expect::Ambiguous;
+    }
+    let n = pure.len();
+    let mut bm = vec![vec![None; n]; n];
+    let mut reversed_used = false;
+    let mut binary_used = 0;
+    if let Some(b) = binary {
+        for i in 0..n {
+            for j in 0..n {
+                let (a, c) = (id_str(&pure[i]["identifier"], kind), id_str(&pure[j]["identifier"], kind));
+                let mut hit: Vec<(bool, &Value)> = vec![];
+                for r in b {
+                    let (r1, r2) = (id_str(&r["id1"], kind), id_str(&r["id2"], kind));
+                    if r1.is_none() || r2.is_none() {
+                        continue;
+                    }
+                    if r1 == a && r2 == c {
+                        hit.push((false, &r["model_record"]));
+                    } else if r1 == c && r2 == a {
+                        hit.push((true, &r["model_record"]));
+                    }
+                }
+                if hit.len() > 1 && hit.iter().any(|h| h.1 != hit[0].1) {
+                    return Expect::Ambiguous;
+                }
+                if let Some((rev, v)) = hit.first() {
+                    bm[i][j] = Some((*v).clone());
+                    if i < j {
+                        binary_used += 1;
+                        if *rev {
+                            reversed_used = true;
+                        }
+                    }
+                }
+            }
+        }
+    }
+    Expect::Ok { pure, binary: bm, pos, reversed_used, binary_used }
+}
+
+fn norm<T: DeserializeOwned + Serialize>(v: &Value) -> Result<Value, String> {
+    let t: T = serde_json::from_value(v.clone()).map_err(|e| format!("harness record does not parse: {e}: {v}"))?;
+    serde_json::to_value(&t).map_err(|e| e.to_string())
+}
+
+fn call_route<P: FamP>(paths: &[PathBuf], bpath: Option<&PathBuf>, query: &[(usize, Vec<String>)], opt: IdentifierOption) -> Result<P, ParameterError> {
+    if query.len() == 1 {
+        let q: Vec<&str> = query[0].1.iter().map(|s| s.as_str()).collect();
+        P::from_json(q, paths[query[0].0].clone(), bpath.cloned(), opt)
+    } else {
+        let input: Vec<(Vec<&str>, PathBuf)> = query.iter().map(|(f, q)| (q.iter().map(|s| s.as_str()).collect(), paths[*f].clone())).collect();
+        P::from_multiple_json(&input, bpath.cloned(), opt)
+    }
+}
+
+/// compare the records retained by `p` with the expectation
+fn cmp_records<P: FamP>(obs: &mut Obs, what: &str, p: &P, pure: &[Value], bin: &[Vec<Option<Value>>], kind: Option<(&str, &[String])>) -> bool
+where
+    P::Pure: Serialize,
+    P::Binary: Serialize,
+{
+    let (pr, br) = p.records();
+    obs.count();
+    if pr.len() != pure.len() {
+        obs.fail(format!("{what}: {} components built for {} queried", pr.len(), pure.len()));
+        return false;
+    }
+    let mut ok = true;
+    for (i, (got, exp)) in pr.iter().zip(pure).enumerate() {
+        obs.count();
+        let got = serde_json::to_value(got).unwrap();
+        let exp = match norm::<PureRecord<P::Pure>>(exp) {
+            Ok(v) => v,
+            Err(e) => {
+                obs.fail(e);
+                return false;
+            }
+        };
+        if got != exp {
+            obs.fail(format!("{what}: component {i} is not the queried record: got {got} expected {exp}"));
+            ok = false;
+        }
+        if let Some((k, q)) = kind {
+            if id_str(&got["identifier"], k).as_deref() != Some(q[i].as_str()) {
+                obs.fail(format!("{what}: component {i} carries {k} = {:?}, queried '{}'", got["identifier"].get(k), q[i]));
+                ok = false;
+            }
+        }
+    }
+    let n = pure.len();
+    let default = serde_json::to_value(P::Binary::default()).unwrap();
+    for i in 0..n {
+        for j in 0..n {
+            obs.count();
+            let exp = match &bin[i][j] {
+                Some(v) => match norm::<P::Binary>(v) {
+                    Ok(v) => v,
+                    Err(e) => {
+                        obs.fail(e);
+                        return false;
+                    }
+                },
+                None => default.clone(),
+            };
+            let got = match br {
+                Some(b) => serde_json::to_value(&b[(i, j)]).unwrap(),
+                None => default.clone(),
+            };
+            if got != exp {
+                obs.fail(format!("{what}: binary record ({i},{j}) = {got}, expected {exp} ({})", if bin[i][j].is_some() { "stored in the binary file" } else { "documented default" }));
+                ok = false;
+            }
+        }
+    }
+    ok
+}
+
+fn typed_inputs<P: FamP>(pure: &[Value], bin: &[Vec<Option<Value>>]) -> Result<(Vec<PureRecord<P::Pure>>, Array2<P::Binary>), String> {
+    let pr: Vec<PureRecord<P::Pure>> = pure
+        .iter()
+        .map(|v| serde_json::from_value(v.clone()).map_err(|e| format!("harness record does not parse: {e}")))
+        .collect::<Result<_, _>>()?;
+    let n = pure.len();
+    let mut m = Array2::from_elem((n, n), P::Binary::default());
+    for i in 0..n {
+        for j in 0..n {
+            if let Some(v) = &bin[i][j] {
+                m[(i, j)] = serde_json::from_value(v.clone()).map_err(|e| format!("harness binary record does not parse: {e}"))?;
+            }
+        }
+    }
+    Ok((pr, m))
+}
+
+const TOL_FP: f64 = 1e-13;
+
+/// known finding: ePC-SAFT writes the sorted permittivity data of the k-th record *that has
+/// one* into slot k (src/epcsaft/parameters.rs: `.filter(is_some).enumerate()`), so a component
+/// without permittivity record that precedes one with a record receives the other's data.
+fn epcsaft_permittivity_signature(pure: &[Value]) -> bool {
+    let has: Vec<bool> = pure.iter().map(|r| r["model_record"].get("permittivity_record").is_some()).collect();
+    // some record with data is preceded by a record without
+    has.iter().enumerate().any(|(i, &h)| h && has[..i].iter().any(|&x| !x))
+}
+
+/// Everything that is asserted about one successful construction.
+#[allow(clippy::too_many_arguments)]
+fn check_built<P: FamP>(obs: &mut Obs, fam: Fam, what: &str, p: P, pure: &[Value], bin: &[Vec<Option<Value>>], kind: Option<(&str, &[String])>, subset: &[usize], probes: &[Probe]) -> Option<Vec<f64>>
+where
+    P::Pure: Serialize,
+    P::Binary: Serialize,
+{
+    if !cmp_records(obs, what, &p, pure, bin, kind) {
+        return None;
+    }
+    // public fields are the records' numbers
+    let got = p.fields();
+    let mut exp = expected_fields(pure, bin, &got);
+    let br_is_some = p.records().1.is_some();
+    if fam == Fam::EPcSaft {
+        // model logic, not record fidelity: like-charged self interaction is switched off
+        // (k_ii = [1,0,0,0]) for ions
+        let n = pure.len();
+        for i in 0..n {
+            if pure[i]["model_record"]["z"].as_f64().unwrap_or(0.0) != 0.0 {
+                for c in 0..4 {
+                    let key = format!("k_ij{c}");
+                    if let (Some(e), Some(g)) = (exp.get_mut(&key), got.get(&key)) {
+                        e[i * n + i] = g[i * n + i];
+                    }
+                }
+            }
+        }
+    }
+    for (k, g) in &got {
+        let Some(e) = exp.get(k) else { continue };
+        obs.count();
+        let bad = g.len() != e.len() || g.iter().zip(e).any(|(a, b)| !((a - b).abs() <= 1e-13 * a.abs().max(b.abs()) + 1e-13));
+        if bad {
+            let msg = format!("{what}: public field `{k}` = {g:?}, records say {e:?}");
+            if fam == Fam::EPcSaft && k.starts_with("permittivity") && epcsaft_permittivity_signature(pure) {
+                obs.known_or_fail("C14/epcsaft-permittivity-slot", msg);
+            } else {
+                obs.fail(msg);
+            }
+        }
+    }
+    let n = pure.len();
+    // reference: from_records with the harness-built inputs
+    let (tp, tb) = match typed_inputs::<P>(pure, bin) {
+        Ok(x) => x,
+        Err(e) => {
+            obs.fail(e);
+            return None;
+        }
+    };
+    let all_default = bin.iter().all(|r| r.iter().all(|b| b.is_none()));
+    let reference = match P::from_records(tp.clone(), Some(tb.clone())) {
+        Ok(r) => r,
+        Err(e) => {
+            obs.fail(format!("{what}: from_records of the expected records fails: {e}"));
+            return None;
+        }
+    };
+    // subset before the parameters are consumed
+    if !subset.is_empty() {
+        let sub = p.subset(subset);
+        let spure: Vec<Value> = subset.iter().map(|&i| pure[i].clone()).collect();
+        let sbin: Vec<Vec<Option<Value>>> = subset.iter().map(|&i| subset.iter().map(|&j| bin[i][j].clone()).collect()).collect();
+        if cmp_records(obs, &format!("{what}/subset{subset:?}"), &sub, &spure, &sbin, None) {
+            if let Ok((sp, sb)) = typed_inputs::<P>(&spure, &sbin) {
+                if let Ok(r) = P::from_records(sp, Some(sb)) {
+                    cmp_fp(obs, &format!("{what}/subset{subset:?} vs from_records"), &sub.behaviour(probes), &r.behaviour(probes), TOL_FP, &WORST_FP);
+                }
+            }
+        }
+    }
+    let ions = fam == Fam::EPcSaft && pure.iter().any(|r| r["model_record"]["z"].as_f64().unwrap_or(0.0) != 0.0);
+    let fp = p.behaviour(probes);
+    cmp_fp(obs, &format!("{what} vs from_records(expected)"), &fp, &reference.behaviour(probes), TOL_FP, &WORST_FP);
+    if all_default {
+        if let Ok(r) = P::from_records(tp.clone(), None) {
+            cmp_fp_ion(obs, &format!("{what} vs from_records(expected, None)"), &fp, &r.behaviour(probes), ions && br_is_some);
+        }
+    }
+    if n == 2 {
+        let b = bin[0][1].as_ref().map(|_| tb[(0, 1)].clone());
+        match P::new_binary(tp, b) {
+            Ok(r) => {
+                let mut nb = vec![vec![None, bin[0][1].clone()], vec![bin[0][1].clone(), None]];
+                if bin[0][1].is_none() {
+                    nb = vec![vec![None, None], vec![None, None]];
+                }
+                // the stored record must be symmetric for this comparison to be meaningful
+                if bin[0][1] == bin[1][0] {
+                    cmp_records(obs, &format!("{what}/new_binary"), &r, pure, &nb, None);
+                    cmp_fp_ion(obs, &format!("{what} vs new_binary"), &fp, &r.behaviour(probes), ions && br_is_some && bin[0][1].is_none());
+                }
+            }
+            Err(e) => obs.fail(format!("{what}: new_binary fails: {e}")),
+        }
+    }
+    Some(fp)
+}
+
+/// one query through one route against the expectation; returns the fingerprint on success
+#[allow(clippy::too_many_arguments)]
+fn check_query<P: FamP>(obs: &mut Obs, fam: Fam, what: &str, paths: &[PathBuf], bpath: Option<&PathBuf>, query: &[(usize, Vec<String>)], kind: &str, expect: &Expect, subset: &[usize], probes: &[Probe]) -> Option<Vec<f64>>
+where
+    P::Pure: Serialize,
+    P::Binary: Serialize,
+{
+    let res = call_route::<P>(paths, bpath, query, opt_of(kind));
+    obs.count();
+    let nq: usize = query.iter().map(|q| q.1.len()).sum();
+    match (expect, res) {
+        (Expect::Ok { pure, binary, .. }, Ok(p)) => {
+            let flatq: Vec<String> = query.iter().flat_map(|q| q.1.iter().cloned()).collect();
+            check_built(obs, fam, what, p, pure, binary, Some((kind, &flatq)), subset, probes)
+        }
+        (Expect::Ok { .. }, Err(e)) => {
+            obs.fail(format!("{what}: every queried substance exists exactly once, but construction fails: {} ({e})", err_kind(&e)));
+            None
+        }
+        (Expect::Dup, Err(ParameterError::IncompatibleParameters(_))) => None,
+        (Expect::Missing, Err(ParameterError::ComponentsNotFound(_))) => None,
+        (Expect::DupAndMissing, Err(ParameterError::IncompatibleParameters(_) | ParameterError::ComponentsNotFound(_))) => None,
+        (Expect::Ambiguous, _) => None,
+        (e, Ok(p)) => {
+            obs.fail(format!("{what}: query {query:?} must be rejected ({e:?}) but a model with {} components (of {nq} queried) was built", ncomp(&p)));
+            None
+        }
+        (e, Err(err)) => {
+            obs.fail(format!("{what}: expected {} but got {} ({err})", match e { Expect::Dup => "IncompatibleParameters", Expect::Missing => "ComponentsNotFound", _ => "IncompatibleParameters or ComponentsNotFound" }, err_kind(&err)));
+            None
+        }
+    }
+}
+
+macro_rules! dispatch {
+    ($fam:expr, $f:ident ( $($a:expr),* )) => {
+        match $fam {
+            Fam::PcSaft => $f::<PcSaftParameters>($($a),*),
+            Fam::EPcSaft => $f::<ElectrolytePcSaftParameters>($($a),*),
+            Fam::VrMie => $f::<SaftVRMieParameters>($($a),*),
+            Fam::Vrq => $f::<SaftVRQMieParameters>($($a),*),
+            Fam::Pets => $f::<PetsParameters>($($a),*),
+            Fam::Uv => $f::<UVTheoryParameters>($($a),*),
+            Fam::Joback => $f::<Joback>($($a),*),
+            Fam::Dippr => $f::<Dippr>($($a),*),
+        }
+    };
+}
+
+// ---------------------------------------------------------------------------------------
+// synthetic record generators (numbers rounded to 6 significant digits)
+// ---------------------------------------------------------------------------------------
+fn arr(g: &mut Gen, n: usize) -> Value {
+    json!((0..n).map(|_| r6(g.range(-2.0, 2.0))).collect::<Vec<f64>>())
+}
+
+/// model record of a family with every optional field randomly present / absent
+pub fn gen_model_record(g: &mut Gen, fam: Fam, fh: usize) -> Value {
+    let mut r = json!({});
+    let transport = |g: &mut Gen, r: &mut Value| {
+        if g.bool(0.2) {
+            r["viscosity"] = arr(g, 4);
+        }
+        if g.bool(0.1) {
+            r["diffusion"] = arr(g, 5);
+        }
+        if g.bool(0.1) {
+            r["thermal_conductivity"] = arr(g, 4);
+        }
+    };
+    match fam {
+        Fam::PcSaft => {
+            r = json!({"m": r6(g.range(1.0, 6.0)), "sigma": r6(g.range(2.5, 4.5)), "epsilon_k": r6(g.range(150.0, 400.0))});
+            if g.bool(0.3) {
+                r["mu"] = json!(r6(g.range(0.5, 4.0)));
+            }
+            if g.bool(0.2) {
+                r["q"] = json!(r6(g.range(1.0, 8.0)));
+            }
+            if g.bool(0.35) {
+                r["kappa_ab"] = json!(r6(g.log_range(1e-3, 0.2)));
+                r["epsilon_k_ab"] = json!(r6(g.range(1000.0, 3500.0)));
+                let (na, nb, nc) = [(1.0, 1.0, 0.0), (2.0, 1.0, 0.0), (2.0, 2.0, 0.0), (0.0, 0.0, 1.0), (1.0, 1.0, 1.0), (0.0, 1.0, 0.0)][g.index(6)];
+                for (k, v) in [("na", na), ("nb", nb), ("nc", nc)] {
+                    if v != 0.0 || g.bool(0.2) {
+                        r[k] = json!(v);
+                    }
+                }
+            }
+            transport(g, &mut r);
+        }
+        Fam::EPcSaft => {
+            r = json!({"m": r6(g.range(1.0, 6.0)), "sigma": r6(g.range(2.5, 4.5)), "epsilon_k": r6(g.range(150.0, 400.0))});
+            if g.bool(0.3) {
+                r["kappa_ab"] = json!(r6(g.log_range(1e-3, 0.2)));
+                r["epsilon_k_ab"] = json!(r6(g.range(1000.0, 3500.0)));
+                r["na"] = json!(1.0);
+                r["nb"] = json!(1.0);
+            }
+            if g.bool(0.15) {
+                r["z"] = json!(0.0);
+            }
+            if g.bool(0.4) {
+                let k = 1 + g.index(3);
+                let mut data: Vec<(f64, f64)> = (0..k).map(|_| (r6(g.range(280.0, 370.0)), r6(g.range(2.0, 80.0)))).collect();
+                if g.bool(0.5) {
+                    data.sort_by(|a, b| a.0.partial_cmp(&b.0).unwrap());
+                }
+                r["permittivity_record"] = json!({"ExperimentalData": {"data": data}});
+            }
+        }
+        Fam::VrMie => {
+            r = json!({"m": r6(g.range(1.0, 4.0)), "sigma": r6(g.range(2.8, 4.8)), "epsilon_k": r6(g.range(100.0, 450.0)), "lr": r6(g.range(8.0, 30.0)), "la": 6.0});
+            if g.bool(0.3) {
+                r["rc_ab"] = json!(r6(g.range(0.3, 0.5)));
+                r["epsilon_k_ab"] = json!(r6(g.range(1500.0, 3000.0)));
+                r["na"] = json!(1.0);
+                r["nb"] = json!(1.0);
+            }
+            transport(g, &mut r);
+        }
+        Fam::Vrq => {
+            r = json!({"m": 1.0, "sigma": r6(g.range(2.5, 3.5)), "epsilon_k": r6(g.range(10.0, 50.0)), "lr": r6(g.range(8.0, 14.0)), "la": 6.0, "fh": fh});
+            transport(g, &mut r);
+        }
+        Fam::Pets => {
+            r = json!({"sigma": r6(g.range(2.5, 4.5)), "epsilon_k": r6(g.range(80.0, 400.0))});
+            transport(g, &mut r);
+        }
+        Fam::Uv => {
+            r = json!({"rep": r6(g.range(8.0, 24.0)), "att": 6.0, "sigma": r6(g.range(2.5, 4.5)), "epsilon_k": r6(g.range(80.0, 400.0))});
+        }
+        Fam::Joback => {
+            r = json!({"a": r6(g.range(10.0, 60.0)), "b": r6(g.range(-0.05, 0.3)), "c": r6(g.range(-3e-4, 3e-4)), "d": r6(g.range(-2e-7, 2e-7)), "e": r6(g.range(-1e-11, 1e-11))});
+        }
+        Fam::Dippr => {
+            r = match g.index(3) {
+                0 => {
+                    let k = 1 + g.index(5);
+                    json!({"DIPPR100": (0..k).map(|i| r6(g.range(1.0, 5.0) * 10f64.powi(4 - 3 * i as i32))).collect::<Vec<f64>>()})
+                }
+                1 => json!({"DIPPR107": [r6(g.range(3e4, 1e5)), r6(g.range(5e4, 3e5)), r6(g.range(500.0, 2500.0)), r6(g.range(3e4, 2e5)), r6(g.range(300.0, 1200.0))]}),
+                _ => json!({"DIPPR127": [r6(g.range(3e4, 5e4)), r6(g.range(1e4, 1e5)), r6(g.range(500.0, 1500.0)), r6(g.range(1e4, 1e5)), r6(g.range(1500.0, 3000.0)), r6(g.range(1e4, 1e5)), r6(g.range(3000.0, 6000.0))]}),
+            };
+        }
+    }
+    r
+}
+
+/// binary model record of a family (None: the family has no binary parameters)
+pub fn gen_binary_record(g: &mut Gen, fam: Fam) -> Option<Value> {
+    Some(match fam {
+        Fam::PcSaft => {
+            let mut b = json!({});
+            if g.bool(0.8) {
+                b["k_ij"] = json!(r6(g.range(-0.15, 0.15)));
+            }
+            if g.bool(0.25) {
+                b["kappa_ab"] = json!(r6(g.log_range(1e-3, 0.2)));
+            }
+            if g.bool(0.25) {
+                b["epsilon_k_ab"] = json!(r6(g.range(1000.0, 3500.0)));
+            }
+            b
+        }
+        Fam::EPcSaft => {
+            let k = g.index(5);
+            let mut b = json!({"k_ij": (0..k).map(|i| r6(g.range(-0.1, 0.1) * 10f64.powi(-2 * i as i32))).collect::<Vec<f64>>()});
+            if g.bool(0.2) {
+                b["kappa_ab"] = json!(r6(g.log_range(1e-3, 0.2)));
+                b["epsilon_k_ab"] = json!(r6(g.range(1000.0, 3500.0)));
+            }
+            b
+        }
+        Fam::VrMie => {
+            let mut b = json!({});
+            if g.bool(0.7) {
+                b["k_ij"] = json!(r6(g.range(-0.1, 0.1)));
+            }
+            if g.bool(0.5) {
+                b["gamma_ij"] = json!(r6(g.range(-0.1, 0.1)));
+            }
+            if g.bool(0.2) {
+                b["rc_ab"] = json!(r6(g.range(0.3, 0.5)));
+                b["epsilon_k_ab"] = json!(r6(g.range(1500.0, 3000.0)));
+            }
+            b
+        }
+        Fam::Vrq => json!({"k_ij": r6(g.range(-0.1, 0.1)), "l_ij": r6(g.range(-0.05, 0.05))}),
+        Fam::Pets | Fam::Uv => json!({"k_ij": r6(g.range(-0.15, 0.15))}),
+        Fam::Joback | Fam::Dippr => return None,
+    })
+}
+
+/// identifier strings: distinct inside one kind, colliding across kinds on purpose
+const POOL: [&str; 14] = ["a", "A", "a ", "ab", "\u{3b1}-x", "a-1", "1", "10", "1,2-x", "x/y", "Z", "zz", "b", "B-2"];
+fn id_value(k: usize, kind_index: usize) -> String {
+    POOL[(k + 3 * kind_index) % POOL.len()].to_string()
+}
+fn full_identifier(k: usize) -> Value {
+    let mut v = json!({});
+    for (c, kind) in KINDS.iter().enumerate() {
+        v[*kind] = json!(id_value(k, c));
+    }
+    v
+}
+fn drop_kinds(g: &mut Gen, ident: &Value, p: f64) -> Value {
+    let mut v = ident.clone();
+    for kind in KINDS {
+        if g.bool(p) {
+            v.as_object_mut().unwrap().remove(kind);
+        }
+    }
+    v
+}
+
+// ---------------------------------------------------------------------------------------
+// part `files` / `files-exhaustive`
+// ---------------------------------------------------------------------------------------
+#[derive(Serialize, Deserialize, Clone, Debug)]
+pub struct FilesCase {
+    pub fam: Fam,
+    /// identifier kind used for lookup
+    pub option: String,
+    /// pure files, records in file order
+    pub files: Vec<Vec<Value>>,
+    /// binary file (None: no file given), records in file order
+    pub binary: Option<Vec<Value>>,
+    /// request: (file, queried strings) in request order; one entry => from_json
+    pub query: Vec<(usize, Vec<String>)>,
+    /// indices (into the built components, taken modulo n) for `subset`
+    pub subset: Vec<usize>,
+    pub probes: Vec<Probe>,
+}
+
+fn gen_files(g: &mut Gen, fam: Fam, n_univ: usize, n_files: usize, drop_p: f64) -> (Vec<Vec<Value>>, Vec<Vec<usize>>, Option<Vec<Value>>) {
+    let fh_all = g.index(3);
+    let mut files: Vec<Vec<Value>> = vec![vec![]; n_files];
+    let mut members: Vec<Vec<usize>> = vec![vec![]; n_files];
+    for k in 0..n_univ {
+        let home = g.index(n_files);
+        for f in 0..n_files {
+            if f == home || g.bool(0.35) {
+                let fh = if g.bool(0.2) { 0 } else { fh_all };
+                let mut rec = json!({"identifier": drop_kinds(g, &full_identifier(k), drop_p), "model_record": gen_model_record(g, fam, fh)});
+                if fam == Fam::Vrq || !g.bool(0.1) {
+                    rec["molarweight"] = json!(r6(g.range(2.0, 200.0)));
+                }
+                files[f].push(rec);
+                members[f].push(k);
+            }
+        }
+    }
+    for f in 0..n_files {
+        let perm = g.permutation(files[f].len());
+        files[f] = perm.iter().map(|&i| files[f][i].clone()).collect();
+        members[f] = perm.iter().map(|&i| members[f][i]).collect();
+    }
+    // binary file
+    let mode = g.index(20);
+    let binary = if mode == 0 || matches!(fam, Fam::Joback | Fam::Dippr) {
+        None
+    } else if mode == 1 {
+        Some(vec![])
+    } else {
+        let mut b = vec![];
+        for i in 0..n_univ {
+            for j in i + 1..n_univ {
+                if g.bool(0.6) {
+                    let rec = gen_binary_record(g, fam).unwrap();
+                    let (a, c) = if g.bool(0.5) { (j, i) } else { (i, j) };
+                    b.push(json!({"id1": drop_kinds(g, &full_identifier(a), drop_p * 0.5), "id2": drop_kinds(g, &full_identifier(c), drop_p * 0.5), "model_record": rec}));
+                }
+            }
+        }
+        let perm = g.permutation(b.len());
+        Some(perm.iter().map(|&i| b[i].clone()).collect())
+    };
+    (files, members, binary)
+}
+
+pub fn decode_files(g: &mut Gen) -> FilesCase {
+    let fam = g.pick(&FAMS);
+    let kind_index = g.index(6);
+    let option = KINDS[kind_index].to_string();
+    let n_univ = 2 + g.index(7);
+    let n_files = 1 + g.index(3);
+    let (files, members, binary) = gen_files(g, fam, n_univ, n_files, 0.05);
+    // request
+    let n_lists = if g.bool(0.5) { 1 } else { 2 + g.index(2) };
+    let mut query: Vec<(usize, Vec<String>)> = vec![];
+    let mut total = 0;
+    let target = 1 + g.index(4);
+    for l in 0..n_lists {
+        let f = g.index(n_files);
+        let mut avail = members[f].clone();
+        let want = if l + 1 == n_lists { target.saturating_sub(total).max(1) } else { 1 + g.index(2) };
+        let mut qs = vec![];
+        for _ in 0..want {
+            if avail.is_empty() || total >= 4 {
+                break;
+            }
+            let k = avail.remove(g.index(avail.len()));
+            // a substance already requested from another file would be a duplicate string
+            if query.iter().any(|(_, q)| q.contains(&id_value(k, kind_index))) {
+                continue;
+            }
+            qs.push(id_value(k, kind_index));
+            total += 1;
+        }
+        if !qs.is_empty() {
+            query.push((f, qs));
+        }
+    }
+    if query.is_empty() {
+        query.push((0, vec![id_value(members[0].first().copied().unwrap_or(0), kind_index)]));
+    }
+    // injections
+    if g.bool(0.12) {
+        let (l, p) = (g.index(query.len()), g.index(4));
+        let s = query[l].1[p % query[l].1.len()].clone();
+        let l2 = g.index(query.len());
+        let at = g.index(query[l2].1.len() + 1);
+        query[l2].1.insert(at, s);
+    }
+    if g.bool(0.12) {
+        let l = g.index(query.len());
+        let s = match g.index(3) {
+            0 => "no-such-substance".to_string(),
+            // the string of the same substance under another identifier kind
+            1 => id_value(g.index(n_univ), (kind_index + 1 + g.index(5)) % 6),
+            // a substance of the universe that may live in another file only
+            _ => id_value(g.index(n_univ + 2), kind_index),
+        };
+        let at = g.index(query[l].1.len() + 1);
+        query[l].1.insert(at, s);
+    }
+    let subset = (0..1 + g.index(4)).map(|_| g.index(4)).collect();
+    FilesCase { fam, option, files, binary, query, subset, probes: gen_probes(g, fam == Fam::Vrq) }
+}
+
+fn reversed_files(case: &FilesCase) -> (Vec<Vec<Value>>, Option<Vec<Value>>) {
+    let files = case.files.iter().map(|f| f.iter().rev().cloned().collect()).collect();
+    let binary = case.binary.as_ref().map(|b| b.iter().rev().map(|r| json!({"id1": r["id2"], "id2": r["id1"], "model_record": r["model_record"]})).collect());
+    (files, binary)
+}
+
+fn files_generic<P: FamP>(case: &FilesCase, obs: &mut Obs)
+where
+    P::Pure: Serialize,
+    P::Binary: Serialize,
+{
+    let dir = WorkDir::new(case);
+    let kind = case.option.as_str();
+    obs.class(format!("{:?}", case.fam));
+    obs.class(format!("option={kind}"));
+    obs.class(if case.query.len() == 1 { "from_json" } else { "from_multiple_json" });
+    let mut paths = vec![];
+    let mut read: Vec<Vec<Value>> = vec![];
+    for (i, f) in case.files.iter().enumerate() {
+        let (p, v) = dir.write(&format!("pure{i}.json"), f);
+        paths.push(p);
+        read.push(v);
+    }
+    let (bpath, bread) = match &case.binary {
+        Some(b) => {
+            let (p, v) = dir.write("binary.json", b);
+            (Some(p), Some(v))
+        }
+        None => (None, None),
+    };
+    obs.class(match &case.binary {
+        None => "binary-file:none",
+        Some(b) if b.is_empty() => "binary-file:empty",
+        _ => "binary-file:given",
+    });
+    let refs: Vec<&[Value]> = read.iter().map(|v| v.as_slice()).collect();
+    let expect = reference(&refs, bread.as_deref(), &case.query, kind);
+    let nq: usize = case.query.iter().map(|q| q.1.len()).sum();
+    obs.class(format!("queried={}", nq.min(5)));
+    let fp = match &expect {
+        Expect::Ok { pure, pos, reversed_used, binary_used, .. } => {
+            let n = pure.len();
+            let subset: Vec<usize> = case.subset.iter().map(|i| i % n).collect();
+            // non-trivial: query order differs from file order, or a reversed binary record is used
+            let in_file_order = pos.windows(2).all(|w| w[0] < w[1]);
+            if !in_file_order && n > 1 {
+                obs.class("query-order!=file-order");
+                obs.nontrivial();
+            }
+            if *reversed_used {
+                obs.class("reversed-binary-record-used");
+                obs.nontrivial();
+            }
+            obs.class(format!("binary-entries-used={}", (*binary_used).min(4)));
+            if pure.iter().any(|r| KINDS.iter().any(|k| r["identifier"].get(k).is_none())) {
+                obs.class("record-with-missing-identifier-kinds");
+            }
+            check_query::<P>(obs, case.fam, "file route", &paths, bpath.as_ref(), &case.query, kind, &expect, &subset, &case.probes)
+        }
+        Expect::Ambiguous => {
+            obs.discard("ambiguous identifier in generated file");
+            return;
+        }
+        e => {
+            obs.class(match e {
+                Expect::Dup => "inject:duplicate",
+                Expect::Missing => "inject:unknown",
+                _ => "inject:duplicate+unknown",
+            });
+            obs.nontrivial();
+            check_query::<P>(obs, case.fam, "file route", &paths, bpath.as_ref(), &case.query, kind, &expect, &[], &case.probes)
+        }
+    };
+    // independence from file order: same content, every file reversed, binary records reversed
+    // and stored in the other orientation
+    let (rf, rb) = reversed_files(case);
+    let mut paths2 = vec![];
+    for (i, f) in rf.iter().enumerate() {
+        paths2.push(dir.write(&format!("rev_pure{i}.json"), f).0);
+    }
+    let bpath2 = rb.as_ref().map(|b| dir.write("rev_binary.json", b).0);
+    let fp2 = check_query::<P>(obs, case.fam, "reversed files", &paths2, bpath2.as_ref(), &case.query, kind, &expect, &[], &case.probes);
+    if let (Some(a), Some(b)) = (fp, fp2) {
+        cmp_fp(obs, "file order independence", &a, &b, TOL_FP, &WORST_FP);
+    }
+}
+
+pub fn check_files(case: &FilesCase, obs: &mut Obs) {
+    dispatch!(case.fam, files_generic(case, obs))
+}
+
+/// deterministic pseudo-genome for the seed-independent lattice (fixed data, not an RNG stream)
+fn fixed_genome(tag: u64, len: usize) -> Vec<u32> {
+    (0..len as u64)
+        .map(|i| {
+            let mut x = (i + 1).wrapping_mul(0x9E3779B97F4A7C15) ^ tag.wrapping_mul(0xD1B54A32D192ED03);
+            x ^= x >> 29;
+            x = x.wrapping_mul(0xBF58476D1CE4E5B9);
+            x ^= x >> 32;
+            x as u32
+        })
+        .collect()
+}
+
+/// every ordered subset up to size 4 of a 5-record file: all six identifier options for
+/// PC-SAFT, one option (cycling) for each other family
+pub fn exhaustive_cases() -> Vec<FilesCase> {
+    let mut out = vec![];
+    for (fi, fam) in FAMS.iter().enumerate() {
+        let genome = fixed_genome(fi as u64 + 1, 400);
+        let mut g = Gen::new(&genome);
+        let (files, members, mut binary) = gen_files(&mut g, *fam, 5, 1, 0.0);
+        if binary.as_ref().map(|b| b.is_empty()).unwrap_or(true) && !matches!(fam, Fam::Joback | Fam::Dippr) {
+            // make sure the lattice exercises a binary file
+            let mut b = vec![];
+            for (i, j) in [(1usize, 0usize), (0, 2), (3, 1), (2, 4), (4, 3), (0, 4)] {
+                b.push(json!({"id1": full_identifier(i), "id2": full_identifier(j), "model_record": gen_binary_record(&mut g, *fam).unwrap()}));
+            }
+            binary = Some(b);
+        }
+        let probes = gen_probes(&mut g, *fam == Fam::Vrq);
+        let options: Vec<usize> = if *fam == Fam::PcSaft { (0..6).collect() } else { vec![fi % 6] };
+        let n = members[0].len();
+        let mut subsets: Vec<Vec<usize>> = vec![];
+        for a in 0..n {
+            subsets.push(vec![a]);
+            for b in 0..n {
+                if b == a {
+                    continue;
+                }
+                subsets.push(vec![a, b]);
+                for c in 0..n {
+                    if c == a || c == b {
+                        continue;
+                    }
+                    subsets.push(vec![a, b, c]);
+                    for d in 0..n {
+                        if d == a || d == b || d == c {
+                            continue;
+                        }
+                        subsets.push(vec![a, b, c, d]);
+                    }
+                }
+            }
+        }
+        for &o in &options {
+            for s in &subsets {
+                out.push(FilesCase {
+                    fam: *fam,
+                    option: KINDS[o].to_string(),
+                    files: files.clone(),
+                    binary: binary.clone(),
+                    query: vec![(0, s.iter().map(|&k| id_value(k, o)).collect())],
+                    subset: (0..s.len()).rev().collect(),
+                    probes: probes.clone(),
+                });
+            }
+        }
+    }
+    out
+}
+
+// ---------------------------------------------------------------------------------------
+// part `shipped`: random ordered queries against the shipped files
+// ---------------------------------------------------------------------------------------
+pub const GROUPS: [(Fam, &[&str], Option<&str>); 8] = [
+    (Fam::PcSaft, &["pcsaft/gross2001.json", "pcsaft/gross2002.json"], Some("pcsaft/gross2002_binary.json")),
+    (Fam::PcSaft, &["pcsaft/esper2023.json", "pcsaft/gross2006.json", "pcsaft/gross2005_fit.json"], None),
+    (Fam::PcSaft, &["pcsaft/loetgeringlin2018.json", "pcsaft/rehner2020.json", "pcsaft/eller2022.json", "pcsaft/gross2005_literature.json"], None),
+    (Fam::EPcSaft, &["epcsaft/held2014_w_permittivity_added.json"], Some("epcsaft/held2014_binary.json")),
+    (Fam::VrMie, &["saftvrmie/lafitte2013.json"], None),
+    (Fam::Vrq, &["saftvrqmie/aasen2019.json", "saftvrqmie/hammer2023.json"], Some("saftvrqmie/aasen2020_binary.json")),
+    (Fam::Vrq, &["saftvrqmie/aasen2019_fh2.json"], Some("saftvrqmie/aasen2020_binary_fh2.json")),
+    (Fam::Dippr, &["ideal_gas/poling2000.json"], None),
+];
+
+static SHIPPED: LazyLock<Mutex<HashMap<String, Arc<Vec<Value>>>>> = LazyLock::new(|| Mutex::new(HashMap::new()));
+/// a shipped file as the library reads it (same JSON parser)
+fn shipped(rel: &str) -> Arc<Vec<Value>> {
+    if let Some(v) = SHIPPED.lock().unwrap().get(rel) {
+        return v.clone();
+    }
+    let text = std::fs::read_to_string(params_dir().join(rel)).unwrap_or_else(|e| panic!("read {rel}: {e}"));
+    let v: Arc<Vec<Value>> = Arc::new(serde_json::from_str(&text).unwrap_or_else(|e| panic!("parse {rel}: {e}")));
+    SHIPPED.lock().unwrap().insert(rel.to_string(), v.clone());
+    v
+}
+
+#[derive(Serialize, Deserialize, Clone, Debug)]
+pub struct ShippedCase {
+    pub group: usize,
+    pub option: String,
+    /// (file index inside the group, record indices) in request order
+    pub query: Vec<(usize, Vec<usize>)>,
+    /// repeat the string of flattened position .0 at the end of list .1
+    pub dup: Option<(usize, usize)>,
+    /// append an unknown string to list .0
+    pub unknown: Option<(usize, String)>,
+    pub subset: Vec<usize>,
+    pub probes: Vec<Probe>,
+}
+
+pub fn decode_shipped(g: &mut Gen) -> ShippedCase {
+    let group = g.index(GROUPS.len());
+    let (fam, files, _) = GROUPS[group];
+    // weight the default option
+    let option = if g.bool(0.6) { KINDS[g.index(6)] } else { "name" }.to_string();
+    let n_lists = if g.bool(0.5) { 1 } else { 1 + g.index(3) };
+    let total = 1 + g.index(4);
+    let mut query: Vec<(usize, Vec<usize>)> = vec![];
+    let mut left = total;
+    for l in 0..n_lists {
+        if left == 0 {
+            break;
+        }
+        let f = g.index(files.len());
+        let n = shipped(files[f]).len();
+        let k = if l + 1 == n_lists { left } else { 1 + g.index(left) };
+        let mut idx = vec![];
+        for _ in 0..k {
+            let i = g.index(n);
+            if !idx.contains(&i) {
+                idx.push(i);
+            }
+        }
+        left -= k.min(left);
+        query.push((f, idx));
+    }
+    let nq: usize = query.iter().map(|q| q.1.len()).sum();
+    let dup = g.bool(0.08).then(|| (g.index(nq), g.index(query.len())));
+    let unknown = g.bool(0.08).then(|| (g.index(query.len()), if g.bool(0.5) { "unobtainium".to_string() } else { "Methane ".to_string() }));
+    let subset = (0..1 + g.index(4)).map(|_| g.index(4)).collect();
+    ShippedCase { group, option, query, dup, unknown, subset, probes: gen_probes(g, fam == Fam::Vrq) }
+}
+
+fn shipped_generic<P: FamP>(case: &ShippedCase, obs: &mut Obs)
+where
+    P::Pure: Serialize,
+    P::Binary: Serialize,
+{
+    let (fam, files, bfile) = GROUPS[case.group];
+    let kind = case.option.as_str();
+    obs.class(format!("group:{}{}", files[0], if files.len() > 1 { "+..." } else { "" }));
+    obs.class(format!("option={kind}"));
+    let contents: Vec<Arc<Vec<Value>>> = files.iter().map(|f| shipped(f)).collect();
+    let bcontent = bfile.map(shipped);
+    // request strings
+    let mut query: Vec<(usize, Vec<String>)> = vec![];
+    for (f, idx) in &case.query {
+        let mut qs = vec![];
+        for &i in idx {
+            match id_str(&contents[*f][i % contents[*f].len()]["identifier"], kind) {
+                Some(s) => qs.push(s),
+                None => {
+                    obs.discard(format!("record has no {kind}"));
+                    return;
+                }
+            }
+        }
+        if !qs.is_empty() {
+            query.push((*f, qs));
+        }
+    }
+    if query.is_empty() {
+        obs.discard("empty query");
+        return;
+    }
+    if let Some((pos, l)) = case.dup {
+        let flatq: Vec<String> = query.iter().flat_map(|q| q.1.iter().cloned()).collect();
+        let s = flatq[pos % flatq.len()].clone();
+        let l = l % query.len();
+        query[l].1.push(s);
+    }
+    if let Some((l, s)) = &case.unknown {
+        let l = l % query.len();
+        query[l].1.insert(0, s.clone());
+    }
+    obs.class(if query.len() == 1 { "from_json" } else { "from_multiple_json" });
+    let refs: Vec<&[Value]> = contents.iter().map(|v| v.as_slice()).collect();
+    let expect = reference(&refs, bcontent.as_ref().map(|b| b.as_slice()), &query, kind);
+    let paths: Vec<PathBuf> = files.iter().map(|f| params_dir().join(f)).collect();
+    let bpath = bfile.map(|b| params_dir().join(b));
+    match &expect {
+        Expect::Ok { pure, pos, reversed_used, binary_used, .. } => {
+            let n = pure.len();
+            obs.class(format!("components={n}"));
+            let subset: Vec<usize> = case.subset.iter().map(|i| i % n).collect();
+            if n > 1 && !pos.windows(2).all(|w| w[0] < w[1]) {
+                obs.class("query-order!=file-order");
+                obs.nontrivial();
+            }
+            if *binary_used > 0 {
+                obs.class("shipped-binary-record-used");
+                obs.nontrivial();
+            }
+            if *reversed_used {
+                obs.class("reversed-binary-record-used");
+            }
+            check_query::<P>(obs, fam, "shipped files", &paths, bpath.as_ref(), &query, kind, &expect, &subset, &case.probes);
+        }
+        Expect::Ambiguous => {
+            // several shipped records carry the queried string (documented for SAFT-VRQ Mie,
+            // reported by C15 elsewhere): which one is returned is not stated by the property
+            obs.class("ambiguous-identifier-in-shipped-file");
+            obs.discard("ambiguous identifier");
+        }
+        e => {
+            obs.class(match e {
+                Expect::Dup => "rejected:duplicate",
+                Expect::Missing => "rejected:unknown",
+                _ => "rejected:duplicate+unknown",
+            });
+            obs.nontrivial();
+            check_query::<P>(obs, fam, "shipped files", &paths, bpath.as_ref(), &query, kind, &expect, &[], &case.probes);
+        }
+    }
+}
+
+pub fn check_shipped(case: &ShippedCase, obs: &mut Obs) {
+    dispatch!(GROUPS[case.group].0, shipped_generic(case, obs))
+}
+
+// ---------------------------------------------------------------------------------------
+// part `gc`: group contribution combining rules
+// ---------------------------------------------------------------------------------------
+#[derive(Serialize, Deserialize, Clone, Debug)]
+pub struct GcCase {
+    /// "homo" | "hetero-eos" | "hetero-dft"
+    pub route: String,
+    pub table_src: String,
+    /// segment table in file order
+    pub segments: Vec<Value>,
+    /// binary segment records (id1, id2, model_record = k_ab)
+    pub seg_binary: Option<Vec<Value>>,
+    /// chemical records (identifier, segments, optional bonds) in component order
+    pub chem: Vec<Value>,
+    pub option: String,
+    /// genes for the permutations applied inside the check
+    pub perm_seed: Vec<u32>,
+    pub dup_query: bool,
+    pub missing_query: bool,
+    pub probes: Vec<Probe>,
+}
+
+const HOMO_TABLES: [(&str, Option<&str>); 3] = [
+    ("pcsaft/sauer2014_homo.json", None),
+    ("pcsaft/loetgeringlin2015_homo.json", None),
+    ("pcsaft/rehner2023_homo.json", Some("pcsaft/rehner2023_homo_binary.json")),
+];
+const HETERO_TABLES: [(&str, Option<&str>); 2] = [
+    ("pcsaft/sauer2014_hetero.json", None),
+    ("pcsaft/rehner2023_hetero.json", Some("pcsaft/rehner2023_hetero_binary.json")),
+];
+const SEG_IDS: [&str; 6] = ["S0", "s0", "S 1", ">X<", "=Y", "S0a"];
+
+pub fn decode_gc(g: &mut Gen) -> GcCase {
+    let route = g.pick(&["homo", "hetero-eos", "hetero-dft"]).to_string();
+    let homo = route == "homo";
+    let shipped_table = g.bool(0.6);
+    let (table_src, segments, mut seg_binary): (String, Vec<Value>, Option<Vec<Value>>) = if shipped_table {
+        let (t, b) = if homo { HOMO_TABLES[g.index(3)] } else { HETERO_TABLES[g.index(2)] };
+        let bin = match b {
+            Some(b) if g.bool(0.7) => Some(shipped(b).as_ref().clone()),
+            _ => None,
+        };
+        (t.to_string(), shipped(t).as_ref().clone(), bin)
+    } else {
+        let n = 2 + g.index(5);
+        let polar = g.index(n + 2);
+        let assoc = g.index(n + 2);
+        let segs = (0..n)
+            .map(|k| {
+                let mut mr = json!({"m": r6(g.range(0.3, 1.6)), "sigma": r6(g.range(2.6, 4.2)), "epsilon_k": r6(g.range(150.0, 400.0))});
+                if k == polar {
+                    mr["mu"] = json!(r6(g.range(0.5, 3.5)));
+                }
+                if k == assoc {
+                    mr["kappa_ab"] = json!(r6(g.log_range(1e-3, 0.05)));
+                    mr["epsilon_k_ab"] = json!(r6(g.range(1000.0, 3000.0)));
+                    mr["na"] = json!(1.0);
+                    mr["nb"] = json!(1.0);
+                }
+                if homo && g.bool(0.15) {
+                    mr["q"] = json!(r6(g.range(1.0, 6.0)));
+                }
+                if !homo && g.bool(0.2) {
+                    mr["psi_dft"] = json!(r6(g.range(1.2, 1.8)));
+                }
+                json!({"identifier": SEG_IDS[k], "molarweight": r6(g.range(12.0, 60.0)), "model_record": mr})
+            })
+            .collect();
+        ("synthetic".to_string(), segs, None)
+    };
+    let ids: Vec<String> = segments.iter().map(|s| s["identifier"].as_str().unwrap().to_string()).collect();
+    if seg_binary.is_none() && g.bool(0.5) {
+        // synthetic binary segment table: each unordered pair at most once, random orientation
+        let mut b = vec![];
+        let k = ids.len().min(8);
+        for i in 0..k {
+            for j in i + 1..k {
+                if g.bool(0.5) {
+                    let (x, y) = if g.bool(0.5) { (j, i) } else { (i, j) };
+                    b.push(json!({"id1": ids[x], "id2": ids[y], "model_record": r6(g.range(-0.1, 0.1))}));
+                }
+            }
+        }
+        seg_binary = Some(b);
+    }
+    let ncomp = 1 + g.index(3);
+    let subs = shipped("pcsaft/gc_substances.json");
+    let mut chem = vec![];
+    for k in 0..ncomp {
+        if shipped_table && g.bool(0.3) {
+            let mut r = subs[g.index(subs.len())].clone();
+            // unique identifiers inside the case
+            r["identifier"] = full_identifier(k);
+            chem.push(r);
+            continue;
+        }
+        let n_seg = 1 + g.index(8);
+        let palette: Vec<String> = (0..1 + g.index(3)).map(|_| ids[g.index(ids.len())].clone()).collect();
+        let segs: Vec<String> = (0..n_seg).map(|_| palette[g.index(palette.len())].clone()).collect();
+        let mut r = json!({"identifier": full_identifier(k), "segments": segs});
+        if g.bool(0.5) {
+            // explicit bonds: a random tree (branched unless it happens to be a path)
+            let bonds: Vec<[usize; 2]> = (1..n_seg)
+                .map(|s| {
+                    let parent = g.index(s);
+                    if g.bool(0.5) { [parent, s] } else { [s, parent] }
+                })
+                .collect();
+            r["bonds"] = json!(bonds);
+        }
+        chem.push(r);
+    }
+    GcCase {
+        route,
+        table_src,
+        segments,
+        seg_binary,
+        chem,
+        option: KINDS[g.index(6)].to_string(),
+        perm_seed: (0..24).map(|_| g.raw()).collect(),
+        dup_query: g.bool(0.15),
+        missing_query: g.bool(0.1),
+        probes: gen_probes(g, false),
+    }
+}
+
+fn seg_list(c: &Value) -> Vec<String> {
+    c["segments"].as_array().map(|a| a.iter().map(|s| s.as_str().unwrap_or("").to_string()).collect()).unwrap_or_default()
+}
+fn bond_list(c: &Value) -> Vec<[usize; 2]> {
+    match c.get("bonds").and_then(|b| b.as_array()) {
+        Some(a) => a.iter().map(|b| [b[0].as_u64().unwrap() as usize, b[1].as_u64().unwrap() as usize]).collect(),
+        None => {
+            let n = seg_list(c).len();
+            (1..n).map(|i| [i - 1, i]).collect()
+        }
+    }
+}
+fn seg_counts(c: &Value) -> BTreeMap<String, f64> {
+    let mut m = BTreeMap::new();
+    for s in seg_list(c) {
+        *m.entry(s).or_insert(0.0) += 1.0;
+    }
+    m
+}
+fn k_ab(bin: Option<&[Value]>, a: &str, b: &str) -> f64 {
+    bin.and_then(|bin| {
+        bin.iter().find(|r| {
+            let (x, y) = (r["id1"].as_str().unwrap_or(""), r["id2"].as_str().unwrap_or(""));
+            (x == a && y == b) || (x == b && y == a)
+        })
+    })
+    .and_then(|r| r["model_record"].as_f64())
+    .unwrap_or(0.0)
+}
+/// is a branch present (a bead with three or more bonds)?
+fn branched(c: &Value) -> bool {
+    let mut deg = vec![0; seg_list(c).len()];
+    for b in bond_list(c) {
+        deg[b[0]] += 1;
+        deg[b[1]] += 1;
+    }
+    deg.iter().any(|&d| d >= 3)
+}
+
+/// the same molecule with its beads renumbered (new bead k = old bead perm[k]); bonds explicit
+fn permute_chem(c: &Value, perm: &[usize]) -> Value {
+    let segs = seg_list(c);
+    let mut inv = vec![0; perm.len()];
+    for (k, &p) in perm.iter().enumerate() {
+        inv[p] = k;
+    }
+    let bonds: Vec<[usize; 2]> = bond_list(c).iter().map(|b| [inv[b[0]], inv[b[1]]]).collect();
+    json!({"identifier": c["identifier"], "segments": perm.iter().map(|&p| segs[p].clone()).collect::<Vec<_>>(), "bonds": bonds})
+}
+
+fn close_gc(obs: &mut Obs, what: &str, got: f64, exp: f64, tol: f64) {
+    obs.count();
+    let d = (got - exp).abs() / got.abs().max(exp.abs()).max(1e-300);
+    if got == exp {
+        return;
+    }
+    track(&WORST_GC, d);
+    if !(d <= tol) {
+        obs.fail(format!("{what}: {got:e}, documented rule gives {exp:e} (rel {d:e} > {tol:e})"));
+    }
+}
+
+/// HashMap summation order in the builders: worst 3.6e-14 over 1.5e5 thorough cases
+const TOL_GC: f64 = 1e-11;
+const TOL_GC_FP: f64 = 1e-9;
+/// iterative cross-association solver: X converged to 1e-10 (GUIDE)
+const TOL_GC_FP_ASSOC: f64 = 1e-6;
+
+static F11: LazyLock<Mutex<BTreeMap<String, u64>>> = LazyLock::new(|| Mutex::new(BTreeMap::new()));
+
+struct GcInputs {
+    chem: Vec<Value>,
+    segments: Vec<Value>,
+    binary: Option<Vec<Value>>,
+}
+
+fn typed_vec<T: DeserializeOwned>(v: &[Value], what: &str) -> Result<Vec<T>, String> {
+    v.iter().map(|x| serde_json::from_value(x.clone()).map_err(|e| format!("harness {what} does not parse: {e}: {x}"))).collect()
+}
+
+/// homosegmented: PcSaftParameters::from_segments against the documented rules
+fn gc_homo(case: &GcCase, inp: &GcInputs, obs: &mut Obs, assert_rules: bool) -> Option<(Vec<Value>, Vec<f64>, Vec<f64>)> {
+    let chem: Vec<ChemicalRecord> = typed_vec(&inp.chem, "chemical record").map_err(|e| obs.fail(e)).ok()?;
+    let segs: Vec<SegmentRecord<PcSaftRecord>> = typed_vec(&inp.segments, "segment record").map_err(|e| obs.fail(e)).ok()?;
+    let bin: Option<Vec<BinaryRecord<String, f64>>> = match &inp.binary {
+        Some(b) => Some(typed_vec(b, "binary segment record").map_err(|e| obs.fail(e)).ok()?),
+        None => None,
+    };
+    let seg_of = |id: &str| inp.segments.iter().find(|s| s["identifier"].as_str() == Some(id)).cloned().unwrap_or(Value::Null);
+    let polar_count: f64 = inp
+        .chem
+        .iter()
+        .map(|c| {
+            seg_counts(c)
+                .iter()
+                .map(|(id, n)| {
+                    let mr = &seg_of(id)["model_record"];
+                    let sites = mr["na"].as_f64().unwrap_or(0.0) + mr["nb"].as_f64().unwrap_or(0.0) + mr["nc"].as_f64().unwrap_or(0.0);
+                    if mr.get("mu").is_some() || mr.get("q").is_some() || sites > 0.0 { *n } else { 0.0 }
+                })
+                .sum::<f64>()
+        })
+        .fold(0.0, f64::max);
+    obs.count();
+    let p = match PcSaftParameters::from_segments(chem, segs, bin) {
+        Ok(p) => p,
+        Err(ParameterError::IncompatibleParameters(_)) if polar_count > 1.0 => {
+            // the homosegmented method allows one polar / associating group per molecule
+            obs.class("homo:more-than-one-polar-group-rejected");
+            return None;
+        }
+        Err(e) => {
+            obs.fail(format!("PcSaftParameters::from_segments fails: {e}"));
+            return None;
+        }
+    };
+    let (pr, br) = p.records();
+    let n = inp.chem.len();
+    obs.ensure(pr.len() == n, || format!("from_segments built {} components for {n} chemical records", pr.len()));
+    let recs: Vec<Value> = pr.iter().map(|r| serde_json::to_value(r).unwrap()).collect();
+    let mut kij = vec![];
+    for i in 0..n {
+        for j in 0..n {
+            kij.push(br.map(|b| serde_json::to_value(b[(i, j)]).unwrap()["k_ij"].as_f64().unwrap_or(0.0)).unwrap_or(0.0));
+        }
+    }
+    if assert_rules {
+        for (i, c) in inp.chem.iter().enumerate() {
+            let cnt = seg_counts(c);
+            let (mut m, mut s3, mut e, mut mw) = (0.0, 0.0, 0.0, 0.0);
+            let (mut mu, mut q): (Option<f64>, Option<f64>) = (None, None);
+            let mut assoc = [0.0; 5];
+            for (id, nn) in &cnt {
+                let sr = seg_of(id);
+                let mr = &sr["model_record"];
+                let (mi, si, ei) = (mr["m"].as_f64().unwrap(), mr["sigma"].as_f64().unwrap(), mr["epsilon_k"].as_f64().unwrap());
+                m += nn * mi;
+                s3 += nn * mi * si.powi(3);
+                e += nn * mi * ei;
+                mw += nn * sr["molarweight"].as_f64().unwrap_or(0.0);
+                if let Some(x) = mr["mu"].as_f64() {
+                    mu = Some(mu.unwrap_or(0.0) + nn * x);
+                }
+                if let Some(x) = mr["q"].as_f64() {
+                    q = Some(q.unwrap_or(0.0) + nn * x);
+                }
+                for (t, key) in ["kappa_ab", "epsilon_k_ab", "na", "nb", "nc"].iter().enumerate() {
+                    assoc[t] += nn * mr[*key].as_f64().unwrap_or(0.0);
+                }
+            }
+            let got = &recs[i];
+            let gm = &got["model_record"];
+            obs.ensure(got["identifier"] == serde_json::to_value(serde_json::from_value::<Identifier>(c["identifier"].clone()).unwrap()).unwrap(), || format!("component {i} carries identifier {} instead of {}", got["identifier"], c["identifier"]));
+            close_gc(obs, &format!("component {i} molarweight = sum n_i MW_i"), got["molarweight"].as_f64().unwrap_or(f64::NAN), mw, TOL_GC);
+            close_gc(obs, &format!("component {i} m = sum n_i m_i"), gm["m"].as_f64().unwrap_or(f64::NAN), m, TOL_GC);
+            close_gc(obs, &format!("component {i} sigma^3 = sum n_i m_i sigma_i^3 / m"), gm["sigma"].as_f64().unwrap_or(f64::NAN), (s3 / m).cbrt(), TOL_GC);
+            close_gc(obs, &format!("component {i} epsilon_k = sum n_i m_i eps_i / m"), gm["epsilon_k"].as_f64().unwrap_or(f64::NAN), e / m, TOL_GC);
+            close_gc(obs, &format!("component {i} mu = sum n_i mu_i"), gm["mu"].as_f64().unwrap_or(0.0), mu.unwrap_or(0.0), TOL_GC);
+            close_gc(obs, &format!("component {i} q = sum n_i q_i"), gm["q"].as_f64().unwrap_or(0.0), q.unwrap_or(0.0), TOL_GC);
+            for (t, key) in ["kappa_ab", "epsilon_k_ab", "na", "nb", "nc"].iter().enumerate() {
+                close_gc(obs, &format!("component {i} {key} = sum n_i {key}_i"), gm[*key].as_f64().unwrap_or(0.0), assoc[t], TOL_GC);
+            }
+        }
+        for i in 0..n {
+            for j in 0..n {
+                let exp = if i == j {
+                    0.0
+                } else {
+                    let (ci, cj) = (seg_counts(&inp.chem[i]), seg_counts(&inp.chem[j]));
+                    let (mut num, mut den) = (0.0, 0.0);
+                    for (a, na) in &ci {
+                        for (b, nb) in &cj {
+                            num += na * nb * k_ab(inp.binary.as_deref(), a, b);
+                            den += na * nb;
+                        }
+                    }
+                    num / den
+                };
+                close_gc(obs, &format!("k_ij({i},{j}) = sum n_a n_b k_ab / sum n_a n_b"), kij[i * n + j], exp, TOL_GC);
+            }
+        }
+    }
+    let fp = p.behaviour(&case.probes);
+    Some((recs, kij, fp))
+}
+
+/// leaves of a JSON value as (path, number)
+fn leaves(v: &Value, path: String, out: &mut Vec<(String, f64)>) {
+    match v {
+        Value::Number(n) => out.push((path, n.as_f64().unwrap_or(f64::NAN))),
+        Value::Array(a) => a.iter().enumerate().for_each(|(i, x)| leaves(x, format!("{path}[{i}]"), out)),
+        Value::Object(o) => o.iter().for_each(|(k, x)| leaves(x, format!("{path}.{k}"), out)),
+        _ => {}
+    }
+}
+
+fn cmp_values(obs: &mut Obs, what: &str, a: &[Value], b: &[Value], tol: f64) {
+    let (mut la, mut lb) = (vec![], vec![]);
+    leaves(&json!(a), String::new(), &mut la);
+    leaves(&json!(b), String::new(), &mut lb);
+    obs.count();
+    if la.len() != lb.len() || la.iter().zip(&lb).any(|(x, y)| x.0 != y.0) {
+        obs.fail(format!("{what}: records differ in structure: {} vs {}", json!(a), json!(b)));
+        return;
+    }
+    for ((k, x), (_, y)) in la.iter().zip(&lb) {
+        close_gc(obs, &format!("{what}{k}"), *x, *y, tol);
+    }
+}
+
+/// per-bead view of heterosegmented parameters: (component, segment id) -> (m_total, count), bonds
+struct HeteroView {
+    beads: BTreeMap<(usize, String), (f64, f64)>,
+    bonds: BTreeMap<(usize, String, String), f64>,
+    kij: BTreeMap<(usize, String, usize, String), f64>,
+    mw: Vec<f64>,
+    psi: BTreeMap<(usize, String), f64>,
+}
+
+fn hetero_expected(inp: &GcInputs, dft: bool) -> HeteroView {
+    let seg_of = |id: &str| inp.segments.iter().find(|s| s["identifier"].as_str() == Some(id)).cloned().unwrap_or(Value::Null);
+    let mut v = HeteroView { beads: BTreeMap::new(), bonds: BTreeMap::new(), kij: BTreeMap::new(), mw: vec![], psi: BTreeMap::new() };
+    for (i, c) in inp.chem.iter().enumerate() {
+        let mut mw = 0.0;
+        for (id, n) in seg_counts(c) {
+            let sr = seg_of(&id);
+            v.beads.insert((i, id.clone()), (sr["model_record"]["m"].as_f64().unwrap() * n, n));
+            mw += n * sr["molarweight"].as_f64().unwrap_or(0.0);
+            if dft {
+                v.psi.insert((i, id.clone()), sr["model_record"]["psi_dft"].as_f64().unwrap_or(1.5357));
+            }
+        }
+        v.mw.push(mw);
+        let segs = seg_list(c);
+        for b in bond_list(c) {
+            let (mut a, mut d) = (segs[b[0]].clone(), segs[b[1]].clone());
+            if a > d {
+                std::mem::swap(&mut a, &mut d);
+            }
+            *v.bonds.entry((i, a, d)).or_insert(0.0) += 1.0;
+        }
+    }
+    let keys: Vec<(usize, String)> = v.beads.keys().cloned().collect();
+    for (i, a) in &keys {
+        for (j, b) in &keys {
+            if i != j {
+                let k = k_ab(inp.binary.as_deref(), a, b);
+                if k != 0.0 {
+                    v.kij.insert((*i, a.clone(), *j, b.clone()), k);
+                }
+            }
+        }
+    }
+    v
+}
+
+/// map (sigma, epsilon_k) bit patterns to segment identifiers; None if not unique in the table
+fn seg_lookup(segments: &[Value]) -> Option<HashMap<(u64, u64), String>> {
+    let mut m = HashMap::new();
+    for s in segments {
+        let key = (s["model_record"]["sigma"].as_f64()?.to_bits(), s["model_record"]["epsilon_k"].as_f64()?.to_bits());
+        if m.insert(key, s["identifier"].as_str()?.to_string()).is_some() {
+            return None;
+        }
+    }
+    Some(m)
+}
+
+fn cmp_view(obs: &mut Obs, what: &str, got: &HeteroView, exp: &HeteroView) {
+    obs.count();
+    if got.beads.keys().collect::<Vec<_>>() != exp.beads.keys().collect::<Vec<_>>() {
+        obs.fail(format!("{what}: segments per component {:?}, chemical records say {:?}", got.beads.keys().collect::<Vec<_>>(), exp.beads.keys().collect::<Vec<_>>()));
+        return;
+    }
+    for (k, (m, n)) in &exp.beads {
+        let g = got.beads[k];
+        close_gc(obs, &format!("{what}: m x count of segment {k:?}"), g.0, *m, TOL_GC);
+        close_gc(obs, &format!("{what}: count of segment {k:?}"), g.1, *n, 0.0);
+    }
+    obs.count();
+    if got.bonds != exp.bonds {
+        obs.fail(format!("{what}: bond counts {:?}, chemical records say {:?}", got.bonds, exp.bonds));
+    }
+    obs.count();
+    if got.kij != exp.kij {
+        obs.fail(format!("{what}: segment k_ij {:?}, binary segment records say {:?}", got.kij, exp.kij));
+    }
+    for (i, (g, e)) in got.mw.iter().zip(&exp.mw).enumerate() {
+        close_gc(obs, &format!("{what}: molarweight of component {i} = sum n MW"), *g, *e, TOL_GC);
+    }
+    obs.count();
+    if got.psi != exp.psi {
+        obs.fail(format!("{what}: psi_dft {:?}, segment records say {:?}", got.psi, exp.psi));
+    }
+}
+
+fn gc_hetero(case: &GcCase, inp: &GcInputs, obs: &mut Obs, dft: bool) -> Option<Vec<f64>> {
+    let chem: Vec<ChemicalRecord> = typed_vec(&inp.chem, "chemical record").map_err(|e| obs.fail(e)).ok()?;
+    let segs: Vec<SegmentRecord<GcPcSaftRecord>> = typed_vec(&inp.segments, "segment record").map_err(|e| obs.fail(e)).ok()?;
+    let bin: Option<Vec<BinaryRecord<String, f64>>> = match &inp.binary {
+        Some(b) => Some(typed_vec(b, "binary segment record").map_err(|e| obs.fail(e)).ok()?),
+        None => None,
+    };
+    let exp = hetero_expected(inp, dft);
+    let lookup = seg_lookup(&inp.segments);
+    if lookup.is_none() {
+        obs.class("segment-table-not-identifiable-by-(sigma,epsilon)");
+    }
+    obs.count();
+    if !dft {
+        let p = match GcPcSaftEosParameters::from_segments(chem, segs, bin) {
+            Ok(p) => p,
+            Err(e) => {
+                obs.fail(format!("GcPcSaftEosParameters::from_segments fails: {e}"));
+                return None;
+            }
+        };
+        if let Some(lk) = &lookup {
+            let nb = p.m.len();
+            let id = |k: usize| lk.get(&(p.sigma[k].to_bits(), p.epsilon_k[k].to_bits())).cloned().unwrap_or_else(|| format!("?{k}"));
+            let seg_m = |s: &str| inp.segments.iter().find(|x| x["identifier"].as_str() == Some(s)).and_then(|x| x["model_record"]["m"].as_f64()).unwrap_or(f64::NAN);
+            let mut got = HeteroView { beads: BTreeMap::new(), bonds: BTreeMap::new(), kij: BTreeMap::new(), mw: p.molarweight.to_vec(), psi: BTreeMap::new() };
+            for k in 0..nb {
+                let prev = got.beads.insert((p.component_index[k], id(k)), (p.m[k], (p.m[k] / seg_m(&id(k))).round()));
+                obs.ensure(prev.is_none(), || format!("segment {} appears twice in component {}", id(k), p.component_index[k]));
+            }
+            for (b, c) in p.bonds.iter() {
+                let (mut a, mut d) = (id(b[0]), id(b[1]));
+                if a > d {
+                    std::mem::swap(&mut a, &mut d);
+                }
+                obs.ensure(p.component_index[b[0]] == p.component_index[b[1]], || "bond between segments of different components".to_string());
+                *got.bonds.entry((p.component_index[b[0]], a, d)).or_insert(0.0) += c;
+            }
+            for i in 0..nb {
+                for j in 0..nb {
+                    if p.k_ij[(i, j)] != 0.0 {
+                        got.kij.insert((p.component_index[i], id(i), p.component_index[j], id(j)), p.k_ij[(i, j)]);
+                    }
+                }
+            }
+            cmp_view(obs, "gc-PC-SAFT EoS parameters", &got, &exp);
+        }
+        let n = inp.chem.len();
+        Some(fp_residual(ResidualModel::GcPcSaft(GcPcSaft::new(Arc::new(p))), n, &case.probes))
+    } else {
+        let p = match GcPcSaftFunctionalParameters::from_segments(chem, segs, bin) {
+            Ok(p) => p,
+            Err(e) => {
+                obs.fail(format!("GcPcSaftFunctionalParameters::from_segments fails: {e}"));
+                return None;
+            }
+        };
+        // one bead per segment in the order of the chemical records
+        let mut k = 0;
+        let mut got = HeteroView { beads: BTreeMap::new(), bonds: BTreeMap::new(), kij: BTreeMap::new(), mw: p.molarweight.to_vec(), psi: BTreeMap::new() };
+        let mut bead_id: Vec<(usize, String)> = vec![];
+        for (i, c) in inp.chem.iter().enumerate() {
+            for s in seg_list(c) {
+                let sr = inp.segments.iter().find(|x| x["identifier"].as_str() == Some(s.as_str())).cloned().unwrap_or(Value::Null);
+                obs.count();
+                if k >= p.m.len() || p.component_index[k] != i || p.m[k] != sr["model_record"]["m"].as_f64().unwrap_or(f64::NAN) || p.sigma[k] != sr["model_record"]["sigma"].as_f64().unwrap_or(f64::NAN) || p.epsilon_k[k] != sr["model_record"]["epsilon_k"].as_f64().unwrap_or(f64::NAN) {
+                    obs.fail(format!("functional parameters: bead {k} is not segment '{s}' of component {i}"));
+                    return None;
+                }
+                let e = got.beads.entry((i, s.clone())).or_insert((0.0, 0.0));
+                e.0 += p.m[k];
+                e.1 += 1.0;
+                got.psi.insert((i, s.clone()), p.psi_dft[k]);
+                bead_id.push((i, s));
+                k += 1;
+            }
+        }
+        obs.ensure(k == p.m.len(), || format!("functional parameters hold {} beads, chemical records {k}", p.m.len()));
+        // exact m sums differ in summation order only
+        for e in p.bonds.edge_indices() {
+            let (a, b) = p.bonds.edge_endpoints(e).unwrap();
+            let (a, b) = (a.index(), b.index());
+            if a >= bead_id.len() || b >= bead_id.len() {
+                obs.fail(format!("bond ({a},{b}) refers to a bead that does not exist"));
+                return None;
+            }
+            obs.ensure(bead_id[a].0 == bead_id[b].0, || format!("bond ({a},{b}) joins different components"));
+            let (mut x, mut y) = (bead_id[a].1.clone(), bead_id[b].1.clone());
+            if x > y {
+                std::mem::swap(&mut x, &mut y);
+            }
+            *got.bonds.entry((bead_id[a].0, x, y)).or_insert(0.0) += 1.0;
+        }
+        for i in 0..bead_id.len() {
+            for j in 0..bead_id.len() {
+                if p.k_ij[(i, j)] != 0.0 {
+                    got.kij.insert((bead_id[i].0, bead_id[i].1.clone(), bead_id[j].0, bead_id[j].1.clone()), p.k_ij[(i, j)]);
+                }
+            }
+        }
+        cmp_view(obs, "gc-PC-SAFT functional parameters", &got, &exp);
+        let n = inp.chem.len();
+        Some(fp_residual(ResidualModel::GcPcSaftFunctional(GcPcSaftFunctional::new(Arc::new(p))), n, &case.probes))
+    }
+}
+
+/// number of association site pairs of the model (1 => analytic, more => iterative solver)
+fn assoc_sites(case: &GcCase, dft: bool) -> f64 {
+    let mut sites = 0.0;
+    for c in &case.chem {
+        for (id, n) in seg_counts(c) {
+            let mr = case.segments.iter().find(|s| s["identifier"].as_str() == Some(id.as_str())).map(|s| s["model_record"].clone()).unwrap_or(Value::Null);
+            let s = mr["na"].as_f64().unwrap_or(0.0) + mr["nb"].as_f64().unwrap_or(0.0) + mr["nc"].as_f64().unwrap_or(0.0);
+            if s > 0.0 {
+                sites += if dft { n } else { 1.0 };
+            }
+        }
+    }
+    sites
+}
+
+/// signature of the known finding `gc-functional-association-strength-of-bead-0`: the
+/// functional has exactly one A site bead and one B site bead and no C site (analytic branch)
+fn dft_single_ab_pair(case: &GcCase) -> bool {
+    let (mut a, mut b, mut c) = (0.0, 0.0, 0.0);
+    for ch in &case.chem {
+        for (id, n) in seg_counts(ch) {
+            let mr = case.segments.iter().find(|s| s["identifier"].as_str() == Some(id.as_str())).map(|s| s["model_record"].clone()).unwrap_or(Value::Null);
+            if mr["na"].as_f64().unwrap_or(0.0) > 0.0 {
+                a += n;
+            }
+            if mr["nb"].as_f64().unwrap_or(0.0) > 0.0 {
+                b += n;
+            }
+            if mr["nc"].as_f64().unwrap_or(0.0) > 0.0 {
+                c += n;
+            }
+        }
+    }
+    a * b == 1.0 && c == 0.0
+}
+
+pub fn check_gc(case: &GcCase, obs: &mut Obs) {
+    let homo = case.route == "homo";
+    let dft = case.route == "hetero-dft";
+    obs.class(format!("route:{}", case.route));
+    obs.class(format!("table:{}{}", case.table_src, if case.seg_binary.is_some() { "+binary" } else { "" }));
+    obs.class(format!("components={}", case.chem.len()));
+    let repeated = case.chem.iter().any(|c| seg_counts(c).values().any(|&n| n > 1.0));
+    let branch = case.chem.iter().any(branched);
+    if repeated {
+        obs.class("repeated-segment");
+    }
+    if branch {
+        obs.class("branched");
+    }
+    if case.chem.iter().any(|c| c.get("bonds").is_none()) {
+        obs.class("bonds:linear-default");
+    }
+    if repeated && (homo || branch) {
+        obs.nontrivial();
+    }
+    let sites = assoc_sites(case, dft);
+    let tol_fp = if sites > 1.0 { TOL_GC_FP_ASSOC } else { TOL_GC_FP };
+    let worst = if sites > 1.0 { &WORST_GC_FP_ASSOC } else { &WORST_GC_FP };
+    if sites > 1.0 {
+        obs.class("cross-association(iterative)");
+    }
+    let base = GcInputs { chem: case.chem.clone(), segments: case.segments.clone(), binary: case.seg_binary.clone() };
+    // variant: beads renumbered inside every molecule, segment table and binary table permuted,
+    // binary records stored the other way round
+    let mut pg = Gen::new(&case.perm_seed);
+    let perm_chem: Vec<Value> = case.chem.iter().map(|c| permute_chem(c, &pg.permutation(seg_list(c).len()))).collect();
+    let sp = pg.permutation(case.segments.len());
+    let perm_segments: Vec<Value> = sp.iter().map(|&i| case.segments[i].clone()).collect();
+    let perm_binary = case.seg_binary.as_ref().map(|b| {
+        let bp = pg.permutation(b.len());
+        bp.iter().map(|&i| json!({"id1": b[i]["id2"], "id2": b[i]["id1"], "model_record": b[i]["model_record"]})).collect::<Vec<_>>()
+    });
+    let variant = GcInputs { chem: perm_chem, segments: perm_segments, binary: perm_binary };
+
+    // from_json_segments: chemical records in a file with distractors, in another order
+    let dir = WorkDir::new(case);
+    let kind = case.option.as_str();
+    let mut file_chem: Vec<Value> = case.chem.clone();
+    file_chem.push(json!({"identifier": full_identifier(7), "segments": [case.segments[0]["identifier"]]}));
+    let fp_ = pg.permutation(file_chem.len());
+    let file_chem: Vec<Value> = fp_.iter().map(|&i| file_chem[i].clone()).collect();
+    let (p_chem, _) = dir.write("chem.json", &file_chem);
+    let (p_seg, _) = dir.write("segments.json", &variant.segments);
+    let p_bin = variant.binary.as_ref().map(|b| dir.write("seg_binary.json", b).0);
+    let names: Vec<String> = case.chem.iter().map(|c| id_str(&c["identifier"], kind).unwrap()).collect();
+    let mut q: Vec<&str> = names.iter().map(|s| s.as_str()).collect();
+    let opt = opt_of(kind);
+
+    let fp_base;
+    if homo {
+        let Some((recs, kij, fp)) = gc_homo(case, &base, obs, true) else { return };
+        fp_base = fp;
+        if let Some((r2, k2, f2)) = gc_homo(case, &variant, obs, false) {
+            cmp_values(obs, "segment order invariance: record", &recs, &r2, TOL_GC);
+            cmp_values(obs, "segment order invariance: k_ij", &[json!(kij)], &[json!(k2)], TOL_GC);
+            cmp_fp(obs, "segment order invariance (behaviour)", &fp_base, &f2, tol_fp, worst);
+        } else {
+            obs.fail("permuted inputs are rejected although the original inputs are accepted");
+        }
+        obs.count();
+        match PcSaftParameters::from_json_segments(&q, p_chem.clone(), p_seg.clone(), p_bin.clone(), opt) {
+            Ok(p) => {
+                let r3: Vec<Value> = p.records().0.iter().map(|r| serde_json::to_value(r).unwrap()).collect();
+                cmp_values(obs, "from_json_segments vs from_segments: record", &recs, &r3, TOL_GC);
+                cmp_fp(obs, "from_json_segments vs from_segments (behaviour)", &fp_base, &p.behaviour(&case.probes), tol_fp, worst);
+            }
+            Err(e) => obs.fail(format!("PcSaftParameters::from_json_segments fails: {e}")),
+        }
+    } else {
+        let Some(fp) = gc_hetero(case, &base, obs, dft) else { return };
+        fp_base = fp;
+        match gc_hetero(case, &variant, obs, dft) {
+            Some(f2) => {
+                if dft && dft_single_ab_pair(case) {
+                    // known finding: the analytic A-B branch of the association functional
+                    // evaluates the association strength with the diameters of bead 0
+                    // (src/association/dft.rs:205-208 `association_strength(temperature, 0, 0, ..)`)
+                    let mut o2 = Obs::default();
+                    cmp_fp(&mut o2, "segment order invariance (behaviour)", &fp_base, &f2, tol_fp, &Mutex::new(0.0));
+                    obs.comparisons += o2.comparisons;
+                    for m in o2.fails {
+                        obs.known_or_fail("C14/gc-functional-association-strength-of-bead-0", m);
+                    }
+                } else {
+                    cmp_fp(obs, "segment order invariance (behaviour)", &fp_base, &f2, tol_fp, worst)
+                }
+            }
+            None => obs.fail("permuted inputs are rejected although the original inputs are accepted"),
+        }
+        obs.count();
+        let n = case.chem.len();
+        let r = if dft {
+            GcPcSaftFunctionalParameters::from_json_segments(&q, p_chem.clone(), p_seg.clone(), p_bin.clone(), opt).map(|p| {
+                (p.chemical_records.len(), fp_residual(ResidualModel::GcPcSaftFunctional(GcPcSaftFunctional::new(Arc::new(p))), n, &case.probes))
+            })
+        } else {
+            GcPcSaftEosParameters::from_json_segments(&q, p_chem.clone(), p_seg.clone(), p_bin.clone(), opt).map(|p| {
+                (p.chemical_records.len(), fp_residual(ResidualModel::GcPcSaft(GcPcSaft::new(Arc::new(p))), n, &case.probes))
+            })
+        };
+        match r {
+            Ok((k, f3)) => {
+                obs.ensure(k == n, || format!("from_json_segments built {k} components for {n} queried"));
+                cmp_fp(obs, "from_json_segments vs from_segments (behaviour)", &fp_base, &f3, tol_fp, worst);
+            }
+            Err(e) => obs.fail(format!("from_json_segments fails: {e}")),
+        }
+    }
+    // unknown substance: must be rejected
+    if case.missing_query {
+        obs.class("inject:unknown");
+        let mut q2 = q.clone();
+        q2.insert(q2.len() / 2, "no-such-substance");
+        let r = match case.route.as_str() {
+            "homo" => PcSaftParameters::from_json_segments(&q2, p_chem.clone(), p_seg.clone(), p_bin.clone(), opt).map(|p| ncomp(&p)),
+            "hetero-eos" => GcPcSaftEosParameters::from_json_segments(&q2, p_chem.clone(), p_seg.clone(), p_bin.clone(), opt).map(|p| p.chemical_records.len()),
+            _ => GcPcSaftFunctionalParameters::from_json_segments(&q2, p_chem.clone(), p_seg.clone(), p_bin.clone(), opt).map(|p| p.chemical_records.len()),
+        };
+        obs.count();
+        match r {
+            Err(ParameterError::ComponentsNotFound(_)) => {}
+            Err(e) => obs.fail(format!("from_json_segments with an unknown substance: expected ComponentsNotFound, got {} ({e})", err_kind(&e))),
+            Ok(k) => obs.fail(format!("from_json_segments with an unknown substance built a model with {k} components for {} queried", q2.len())),
+        }
+    }
+    // candidate F11: a repeated query. Observed and reported, not asserted.
+    if case.dup_query {
+        obs.class("observe:duplicate-query(F11)");
+        q.push(q[0]);
+        let r = match case.route.as_str() {
+            "homo" => PcSaftParameters::from_json_segments(&q, p_chem, p_seg, p_bin, opt).map(|p| ncomp(&p)),
+            "hetero-eos" => GcPcSaftEosParameters::from_json_segments(&q, p_chem, p_seg, p_bin, opt).map(|p| p.chemical_records.len()),
+            _ => GcPcSaftFunctionalParameters::from_json_segments(&q, p_chem, p_seg, p_bin, opt).map(|p| p.chemical_records.len()),
+        };
+        let key = match r {
+            Ok(k) if k == q.len() => format!("{}: Ok with all {} queried entries", case.route, "n"),
+            Ok(k) if k + 1 == q.len() => format!("{}: Ok, silently de-duplicated (n-1 components for n queried strings)", case.route),
+            Ok(_) => format!("{}: Ok with another component count", case.route),
+            Err(e) => format!("{}: Err({})", case.route, err_kind(&e)),
+        };
+        *F11.lock().unwrap().entry(key).or_insert(0) += 1;
+    }
+}
+
+// ---------------------------------------------------------------------------------------
+// part `serde`: record round trips
+// ---------------------------------------------------------------------------------------
+#[derive(Serialize, Deserialize, Clone, Debug)]
+pub struct SerdeCase {
+    /// "pure:<Fam>", "pure:PengRobinson", "binary:<Fam>", "binary:PengRobinson", "segment:homo",
+    /// "segment:hetero", "segment:joback", "segment-binary", "chemical", "identifier"
+    pub kind: String,
+    pub value: Value,
+    /// floats carry all 17 digits (else 6 significant digits)
+    pub full_precision: bool,
+    pub probes: Vec<Probe>,
+}
+
+const SERDE_KINDS: [&str; 23] = [
+    "pure:PcSaft", "pure:EPcSaft", "pure:VrMie", "pure:Vrq", "pure:Pets", "pure:Uv", "pure:Joback", "pure:Dippr", "pure:PengRobinson",
+    "binary:PcSaft", "binary:EPcSaft", "binary:VrMie", "binary:Vrq", "binary:Pets", "binary:Uv", "binary:PengRobinson",
+    "segment:homo", "segment:hetero", "segment:joback", "segment-binary", "chemical", "identifier", "pure:PcSaft",
+];
+
+fn fam_of(name: &str) -> Option<Fam> {
+    FAMS.iter().copied().find(|f| format!("{f:?}") == name)
+}
+
+fn roughen(g: &mut Gen, v: &mut Value) {
+    match v {
+        Value::Number(n) => {
+            if let Some(x) = n.as_f64() {
+                if n.is_f64() && x.fract() != 0.0 {
+                    *v = json!(x * (1.0 + g.unit() * 1e-3));
+                }
+            }
+        }
+        Value::Array(a) => a.iter_mut().for_each(|x| roughen(g, x)),
+        Value::Object(o) => o.iter_mut().filter(|(k, _)| k.as_str() != "identifier").for_each(|(_, x)| roughen(g, x)),
+        _ => {}
+    }
+}
+
+pub fn decode_serde(g: &mut Gen) -> SerdeCase {
+    let kind = g.pick(&SERDE_KINDS).to_string();
+    let (a, b) = kind.split_once(':').unwrap_or((kind.as_str(), ""));
+    let ident = |g: &mut Gen| {
+        let k = g.index(10);
+        drop_kinds(g, &full_identifier(k), 0.4)
+    };
+    let hetero_ids: Vec<String> = shipped("pcsaft/sauer2014_hetero.json").iter().map(|s| s["identifier"].as_str().unwrap().to_string()).collect();
+    let mut value = match (a, b) {
+        ("pure", "PengRobinson") => json!({"identifier": ident(g), "molarweight": r6(g.range(16.0, 200.0)), "model_record": {"tc": r6(g.range(100.0, 800.0)), "pc": r6(g.range(5e5, 1e7)), "acentric_factor": r6(g.range(-0.1, 0.9))}}),
+        ("pure", f) => {
+            let fam = fam_of(f).unwrap();
+            let fh = g.index(3);
+            let mut r = json!({"identifier": ident(g), "model_record": gen_model_record(g, fam, fh)});
+            if fam == Fam::Vrq || g.bool(0.8) {
+                r["molarweight"] = json!(r6(g.range(2.0, 200.0)));
+            }
+            r
+        }
+        ("binary", "PengRobinson") => json!({"id1": ident(g), "id2": ident(g), "model_record": r6(g.range(-0.15, 0.15))}),
+        ("binary", f) => json!({"id1": ident(g), "id2": ident(g), "model_record": gen_binary_record(g, fam_of(f).unwrap()).unwrap()}),
+        ("segment", "homo") => json!({"identifier": SEG_IDS[g.index(6)], "molarweight": r6(g.range(12.0, 60.0)), "model_record": gen_model_record(g, Fam::PcSaft, 0)}),
+        ("segment", "hetero") => {
+            let mut mr = json!({"m": r6(g.range(0.3, 1.6)), "sigma": r6(g.range(2.6, 4.2)), "epsilon_k": r6(g.range(150.0, 400.0))});
+            if g.bool(0.4) {
+                mr["mu"] = json!(r6(g.range(0.5, 3.5)));
+            }
+            if g.bool(0.4) {
+                mr["kappa_ab"] = json!(r6(g.log_range(1e-3, 0.05)));
+                mr["epsilon_k_ab"] = json!(r6(g.range(1000.0, 3000.0)));
+                mr["na"] = json!(1.0);
+                if g.bool(0.7) {
+                    mr["nb"] = json!(1.0);
+                }
+            }
+            if g.bool(0.3) {
+                mr["psi_dft"] = json!(r6(g.range(1.2, 1.8)));
+            }
+            json!({"identifier": SEG_IDS[g.index(6)], "molarweight": r6(g.range(12.0, 60.0)), "model_record": mr})
+        }
+        ("segment", _) => json!({"identifier": SEG_IDS[g.index(6)], "molarweight": r6(g.range(12.0, 60.0)), "model_record": gen_model_record(g, Fam::Joback, 0)}),
+        ("segment-binary", _) => json!({"id1": hetero_ids[g.index(hetero_ids.len())], "id2": hetero_ids[g.index(hetero_ids.len())], "model_record": r6(g.range(-0.1, 0.1))}),
+        ("chemical", _) => {
+            let n = 1 + g.index(8);
+            let segs: Vec<String> = (0..n).map(|_| hetero_ids[g.index(6)].clone()).collect();
+            let mut r = json!({"identifier": ident(g), "segments": segs});
+            if g.bool(0.5) {
+                r["bonds"] = json!((1..n).map(|s| [g.index(s), s]).collect::<Vec<_>>());
+            }
+            r
+        }
+        _ => ident(g),
+    };
+    let full_precision = g.bool(0.3);
+    if full_precision {
+        roughen(g, &mut value);
+    }
+    let cold = kind == "pure:Vrq" || kind == "binary:Vrq";
+    SerdeCase { kind, value, full_precision, probes: gen_probes(g, cold) }
+}
+
+/// three serialisations of a record: s1 = to_string(r), s2 = to_string(from_str(s1)), s3 likewise
+fn round_trip<T: DeserializeOwned + Serialize>(obs: &mut Obs, case: &SerdeCase) -> Option<(T, T)> {
+    obs.count();
+    let r: T = match serde_json::from_value(case.value.clone()) {
+        Ok(r) => r,
+        Err(e) => {
+            obs.fail(format!("{}: a record with only documented fields does not parse: {e}: {}", case.kind, case.value));
+            return None;
+        }
+    };
+    let s1 = serde_json::to_string(&r).unwrap();
+    let r2: T = match serde_json::from_str(&s1) {
+        Ok(r) => r,
+        Err(e) => {
+            obs.fail(format!("{}: the serialised record cannot be read back: {e}: {s1}", case.kind));
+            return None;
+        }
+    };
+    let s2 = serde_json::to_string(&r2).unwrap();
+    let s3 = match serde_json::from_str::<T>(&s2) {
+        Ok(r3) => serde_json::to_string(&r3).unwrap(),
+        Err(e) => {
+            obs.fail(format!("{}: second read fails: {e}: {s2}", case.kind));
+            return None;
+        }
+    };
+    if !case.full_precision {
+        obs.ensure(s1 == s2, || format!("{}: first round trip changes the text: {s1} -> {s2}", case.kind));
+        obs.ensure(s2 == s3, || format!("{}: second round trip is not textually idempotent: {s2} -> {s3}", case.kind));
+    } else if s2 != s3 || s1 != s2 {
+        // serde_json without `float_roundtrip` may parse a 17-digit decimal one ulp off: reported only
+        obs.class("17-digit-float-changed-by-serde_json-parse");
+    }
+    // faithful: every non-default number and every identifier string of the input is in the output
+    let out = serde_json::to_value(&r).unwrap();
+    let (mut li, mut lo) = (vec![], vec![]);
+    leaves(&case.value, String::new(), &mut li);
+    leaves(&out, String::new(), &mut lo);
+    for (path, x) in li {
+        if x != 0.0 && !lo.iter().any(|(p, y)| *p == path && *y == x) {
+            obs.fail(format!("{}: input field {path} = {x} is not in the serialised record {out}", case.kind));
+        }
+    }
+    for side in ["identifier", "id1", "id2"] {
+        if case.value.get(side).map(|v| v.is_object()).unwrap_or(false) {
+            obs.ensure(case.value[side] == out[side], || format!("{}: {side} {} serialises as {}", case.kind, case.value[side], out[side]));
+        }
+    }
+    Some((r, r2))
+}
+
+/// fixed partner records for binary / segment behaviour (associating where the family allows it)
+fn partner(fam: Fam, k: usize) -> Value {
+    let genome = fixed_genome(100 + k as u64, 64);
+    let mut g = Gen::new(&genome);
+    let mut mr = gen_model_record(&mut g, fam, 1);
+    match fam {
+        Fam::PcSaft | Fam::EPcSaft => {
+            mr["kappa_ab"] = json!(0.03 + 0.01 * k as f64);
+            mr["epsilon_k_ab"] = json!(2500.0 - 300.0 * k as f64);
+            mr["na"] = json!(1.0);
+            mr["nb"] = json!(1.0);
+            if let Some(o) = mr.as_object_mut() {
+                o.remove("nc");
+                o.remove("permittivity_record");
+            }
+        }
+        Fam::VrMie => {
+            mr["rc_ab"] = json!(0.4);
+            mr["epsilon_k_ab"] = json!(2000.0 + 200.0 * k as f64);
+            mr["na"] = json!(1.0);
+            mr["nb"] = json!(1.0);
+        }
+        _ => {}
+    }
+    json!({"identifier": full_identifier(k), "molarweight": 30.0 + 10.0 * k as f64, "model_record": mr})
+}
+
+fn serde_pure<P: FamP>(case: &SerdeCase, obs: &mut Obs)
+where
+    P::Pure: Serialize,
+{
+    let Some((r, r2)) = round_trip::<PureRecord<P::Pure>>(obs, case) else { return };
+    match (P::new_pure(r), P::new_pure(r2)) {
+        (Ok(a), Ok(b)) => cmp_fp(obs, "model of the record vs model of the re-read record", &a.behaviour(&case.probes), &b.behaviour(&case.probes), serde_tol(case).0, serde_tol(case).1),
+        (Err(e), _) | (_, Err(e)) => obs.fail(format!("{}: new_pure fails: {e}", case.kind)),
+    }
+}
+
+fn serde_binary<P: FamP>(case: &SerdeCase, obs: &mut Obs, fam: Option<Fam>)
+where
+    P::Binary: Serialize,
+{
+    let Some((r, r2)) = round_trip::<BinaryRecord<Identifier, P::Binary>>(obs, case) else { return };
+    let pure: Vec<PureRecord<P::Pure>> = match fam {
+        Some(f) => (0..2).map(|k| serde_json::from_value(partner(f, k)).expect("partner record")).collect(),
+        None => (0..2)
+            .map(|k| serde_json::from_value(json!({"identifier": full_identifier(k), "molarweight": 40.0, "model_record": {"tc": 300.0 + 150.0 * k as f64, "pc": 4e6, "acentric_factor": 0.1 + 0.2 * k as f64}})).expect("partner record"))
+            .collect(),
+    };
+    match (P::new_binary(pure.clone(), Some(r.model_record)), P::new_binary(pure, Some(r2.model_record))) {
+        (Ok(a), Ok(b)) => cmp_fp(obs, "binary model of the record vs of the re-read record", &a.behaviour(&case.probes), &b.behaviour(&case.probes), serde_tol(case).0, serde_tol(case).1),
+        (Err(e), _) | (_, Err(e)) => obs.fail(format!("{}: new_binary fails: {e}", case.kind)),
+    }
+}
+
+static WORST_SERDE: Mutex<f64> = Mutex::new(0.0);
+static WORST_SERDE_FULL: Mutex<f64> = Mutex::new(0.0);
+/// 6-digit floats survive the text exactly: identical behaviour up to HashMap summation order
+/// in the GC builders (1e-9, worst seen 4.7e-12). 17-digit floats: serde_json (built without `float_roundtrip`, as
+/// feos does) re-reads about a third of them one ulp off; behaviour then agrees to 1e-8 (worst 1.8e-11 over 6e5 thorough cases).
+fn serde_tol(case: &SerdeCase) -> (f64, &'static Mutex<f64>) {
+    let gc = case.kind.starts_with("segment") || case.kind == "chemical";
+    if case.full_precision {
+        (1e-8, &WORST_SERDE_FULL)
+    } else if gc {
+        (TOL_GC_FP, &WORST_SERDE_GC)
+    } else {
+        (TOL_FP, &WORST_SERDE)
+    }
+}
+static WORST_SERDE_GC: Mutex<f64> = Mutex::new(0.0);
+
+pub fn check_serde(case: &SerdeCase, obs: &mut Obs) {
+    obs.class(case.kind.clone());
+    obs.class(if case.full_precision { "floats:17-digit" } else { "floats:6-digit" });
+    // non-trivial: at least one optional field absent and one present
+    let optional = ["mu", "q", "kappa_ab", "epsilon_k_ab", "rc_ab", "na", "nb", "nc", "viscosity", "diffusion", "thermal_conductivity", "z", "permittivity_record", "psi_dft", "k_ij", "gamma_ij", "molarweight", "bonds", "cas", "name", "iupac_name", "smiles", "inchi", "formula"];
+    let mut keys = vec![];
+    fn collect(v: &Value, out: &mut Vec<String>) {
+        if let Value::Object(o) = v {
+            for (k, x) in o {
+                out.push(k.clone());
+                collect(x, out);
+            }
+        }
+    }
+    collect(&case.value, &mut keys);
+    let present = optional.iter().filter(|k| keys.iter().any(|x| x == *k)).count();
+    if present > 0 {
+        obs.class("optional-field-present");
+    }
+    obs.nontrivial();
+    let (a, b) = case.kind.split_once(':').unwrap_or((case.kind.as_str(), ""));
+    let tol = serde_tol(case).0;
+    match (a, b) {
+        ("pure", "PengRobinson") => serde_pure::<PengRobinsonParameters>(case, obs),
+        ("pure", f) => {
+            let fam = fam_of(f).unwrap();
+            dispatch!(fam, serde_pure(case, obs))
+        }
+        ("binary", "PengRobinson") => serde_binary::<PengRobinsonParameters>(case, obs, None),
+        ("binary", f) => {
+            let fam = fam_of(f).unwrap();
+            match fam {
+                Fam::PcSaft => serde_binary::<PcSaftParameters>(case, obs, Some(fam)),
+                Fam::EPcSaft => serde_binary::<ElectrolytePcSaftParameters>(case, obs, Some(fam)),
+                Fam::VrMie => serde_binary::<SaftVRMieParameters>(case, obs, Some(fam)),
+                Fam::Vrq => serde_binary::<SaftVRQMieParameters>(case, obs, Some(fam)),
+                Fam::Pets => serde_binary::<PetsParameters>(case, obs, Some(fam)),
+                _ => serde_binary::<UVTheoryParameters>(case, obs, Some(fam)),
+            }
+        }
+        ("segment", "homo") => {
+            let Some((r, r2)) = round_trip::<SegmentRecord<PcSaftRecord>>(obs, case) else { return };
+            let other: SegmentRecord<PcSaftRecord> = serde_json::from_value(json!({"identifier": "other", "molarweight": 14.0, "model_record": {"m": 0.6, "sigma": 3.9, "epsilon_k": 250.0}})).unwrap();
+            let build = |r: SegmentRecord<PcSaftRecord>| {
+                let cr = ChemicalRecord::new(Identifier::default(), vec![r.identifier.clone(), "other".into(), "other".into()], None);
+                PcSaftParameters::from_segments(vec![cr], vec![r, other.clone()], None)
+            };
+            match (build(r), build(r2)) {
+                (Ok(a), Ok(b)) => cmp_fp(obs, "homo GC model of the segment vs of the re-read segment", &a.behaviour(&case.probes), &b.behaviour(&case.probes), tol, serde_tol(case).1),
+                (Err(e), _) | (_, Err(e)) => obs.fail(format!("segment:homo: from_segments fails: {e}")),
+            }
+        }
+        ("segment", "hetero") => {
+            let Some((r, r2)) = round_trip::<SegmentRecord<GcPcSaftRecord>>(obs, case) else { return };
+            let other: SegmentRecord<GcPcSaftRecord> = serde_json::from_value(json!({"identifier": "other", "molarweight": 14.0, "model_record": {"m": 0.6, "sigma": 3.9, "epsilon_k": 250.0}})).unwrap();
+            let probes = &case.probes;
+            let build = |r: SegmentRecord<GcPcSaftRecord>| -> Result<Vec<f64>, ParameterError> {
+                let cr = ChemicalRecord::new(Identifier::default(), vec![r.identifier.clone(), "other".into(), "other".into()], None);
+                let e = GcPcSaftEosParameters::from_segments(vec![cr.clone()], vec![r.clone(), other.clone()], None)?;
+                let f = GcPcSaftFunctionalParameters::from_segments(vec![cr], vec![r, other.clone()], None)?;
+                let mut v = fp_residual(ResidualModel::GcPcSaft(GcPcSaft::new(Arc::new(e))), 1, probes);
+                v.extend(fp_residual(ResidualModel::GcPcSaftFunctional(GcPcSaftFunctional::new(Arc::new(f))), 1, probes));
+                Ok(v)
+            };
+            match (build(r), build(r2)) {
+                (Ok(a), Ok(b)) => cmp_fp(obs, "gc model of the segment vs of the re-read segment", &a, &b, tol, serde_tol(case).1),
+                (Err(e), _) | (_, Err(e)) => obs.fail(format!("segment:hetero: from_segments fails: {e}")),
+            }
+        }
+        ("segment", _) => {
+            let Some((r, r2)) = round_trip::<SegmentRecord<JobackRecord>>(obs, case) else { return };
+            let build = |r: SegmentRecord<JobackRecord>| {
+                let cr = ChemicalRecord::new(Identifier::default(), vec![r.identifier.clone(), r.identifier.clone()], None);
+                Joback::from_segments(vec![cr], vec![r], None)
+            };
+            match (build(r), build(r2)) {
+                (Ok(a), Ok(b)) => cmp_fp(obs, "Joback model of the segment vs of the re-read segment", &a.behaviour(&case.probes), &b.behaviour(&case.probes), tol, serde_tol(case).1),
+                (Err(e), _) | (_, Err(e)) => obs.fail(format!("segment:joback: from_segments fails: {e}")),
+            }
+        }
+        ("segment-binary", _) => {
+            let Some((r, r2)) = round_trip::<BinaryRecord<String, f64>>(obs, case) else { return };
+            let segs: Vec<SegmentRecord<GcPcSaftRecord>> = typed_vec(&shipped("pcsaft/sauer2014_hetero.json"), "segment").unwrap();
+            let probes = &case.probes;
+            let build = |r: BinaryRecord<String, f64>| -> Result<Vec<f64>, ParameterError> {
+                let c1 = ChemicalRecord::new(Identifier::default(), vec![r.id1.clone(), "CH3".into()], None);
+                let c2 = ChemicalRecord::new(Identifier::default(), vec!["CH3".into(), r.id2.clone()], None);
+                let e = GcPcSaftEosParameters::from_segments(vec![c1, c2], segs.clone(), Some(vec![r]))?;
+                Ok(fp_residual(ResidualModel::GcPcSaft(GcPcSaft::new(Arc::new(e))), 2, probes))
+            };
+            match (build(r), build(r2)) {
+                (Ok(a), Ok(b)) => cmp_fp(obs, "gc mixture with the binary segment record vs the re-read one", &a, &b, tol, serde_tol(case).1),
+                (Err(e), _) | (_, Err(e)) => obs.fail(format!("segment-binary: from_segments fails: {e}")),
+            }
+        }
+        ("chemical", _) => {
+            let Some((r, r2)) = round_trip::<ChemicalRecord>(obs, case) else { return };
+            // documented default: no bonds => linear chain
+            obs.ensure(r.bonds == bond_list(&case.value), || format!("chemical record bonds {:?}, expected {:?}", r.bonds, bond_list(&case.value)));
+            obs.ensure(r.segments == r2.segments && r.bonds == r2.bonds, || "re-read chemical record differs".to_string());
+            let segs: Vec<SegmentRecord<GcPcSaftRecord>> = typed_vec(&shipped("pcsaft/sauer2014_hetero.json"), "segment").unwrap();
+            let probes = &case.probes;
+            let build = |r: ChemicalRecord| -> Result<Vec<f64>, ParameterError> {
+                let e = GcPcSaftEosParameters::from_segments(vec![r.clone()], segs.clone(), None)?;
+                let f = GcPcSaftFunctionalParameters::from_segments(vec![r], segs.clone(), None)?;
+                let mut v = fp_residual(ResidualModel::GcPcSaft(GcPcSaft::new(Arc::new(e))), 1, probes);
+                v.extend(fp_residual(ResidualModel::GcPcSaftFunctional(GcPcSaftFunctional::new(Arc::new(f))), 1, probes));
+                Ok(v)
+            };
+            match (build(r), build(r2)) {
+                (Ok(a), Ok(b)) => cmp_fp(obs, "gc model of the chemical record vs of the re-read record", &a, &b, tol, serde_tol(case).1),
+                (Err(e), _) | (_, Err(e)) => obs.fail(format!("chemical: from_segments fails: {e}")),
+            }
+        }
+        _ => {
+            let Some((r, r2)) = round_trip::<Identifier>(obs, case) else { return };
+            for k in KINDS {
+                obs.ensure(r.as_string(opt_of(k)) == r2.as_string(opt_of(k)) && r.as_string(opt_of(k)) == id_str(&case.value, k), || format!("identifier kind {k} changes in the round trip"));
+            }
+        }
+    }
+}
+
+const PART_SHIPPED: PartCfg = PartCfg { name: "shipped", genome_len: 64, cases_quick: 1500, cases_thorough: 100_000, panic: PanicPolicy::Violation };
+const PART_GC: PartCfg = PartCfg { name: "gc", genome_len: 256, cases_quick: 3000, cases_thorough: 150_000, panic: PanicPolicy::Violation };
+const PART_SERDE: PartCfg = PartCfg { name: "serde", genome_len: 96, cases_quick: 12000, cases_thorough: 600_000, panic: PanicPolicy::Violation };
+const PART_FILES: PartCfg = PartCfg { name: "files", genome_len: 640, cases_quick: 4000, cases_thorough: 200_000, panic: PanicPolicy::Violation };
+
+pub fn run(ctx: &Ctx) {
+    ctx.set_rule("files (sampled): a universe of 2-8 substances with identifiers in all six kinds (strings distinct inside a kind, colliding across kinds; 5 % of the kinds dropped per record) is spread over 1-3 JSON files (overlapping, different parameters per file, random file order) of one of 8 real parameter types (PcSaft, ePC-SAFT, SAFT-VR Mie, SAFT-VRQ Mie, PeTS, uv-theory, Joback, DIPPR; every optional field present/absent); binary file absent / empty / 60 % of the pairs stored as (id1,id2) or (id2,id1) in random order; request = 1-3 (file, list) entries with 1-4 strings in total, 12 % injected duplicate, 12 % injected unknown (foreign kind, other file, nonsense); every IdentifierOption; routes from_json / from_multiple_json, then from_records, new_binary (n = 2), subset, and the same request against the reversed files with re-oriented binary records. files-exhaustive (lattice, seed independent): every ordered subset up to size 4 of a 5-record file, all six options for PcSaft and one option for each other family. shipped: 1-4 records from 1-3 files of 8 shipped file groups with their binary files, optional duplicate / unknown. gc: homo (PcSaftParameters) / hetero (GcPcSaftEosParameters, GcPcSaftFunctionalParameters) from_segments and from_json_segments over the shipped tables (and binary tables) or synthetic tables of 2-6 segments, 1-3 molecules of 1-8 beads with linear-default or explicit tree bonds (or shipped gc substances). serde: 22 record types, optional fields present/absent, 6-digit or 17-digit floats. Non-trivial: files/shipped: query order differs from file order, or a reversed binary record is used, or a rejection is demanded; gc: repeated segment and (homo or branched); serde: every case. Distinct by hash of the canonical case JSON.");
+    ctx.assume("reference model in the harness: components in request order carrying the requested identifier; binary entry (i,j) = the stored record whose two identifiers match under the selected kind in either orientation, Default::default() otherwise, symmetric, default on the diagonal; repeated string => Err(IncompatibleParameters); unknown string => Err(ComponentsNotFound); both => either; never Ok with fewer components. Expected records are re-read from the very text the library reads (same JSON parser), so record equality is exact JSON equality");
+    ctx.assume("model behaviour = (a_res, p, mu_res_i) at 3 states (T 250-600 K, 20-120 K for SAFT-VRQ Mie, 280-370 K for ePC-SAFT; 1e-3..0.8 of the maximum density) or ln Lambda^3 at 6 temperatures for ideal-gas models; file route vs from_records vs new_binary vs subset vs reversed files: relative 1e-13 (measured 0: identical arithmetic); GC builders iterate HashMaps: combining rules 1e-11 (worst 3.6e-14 in the thorough tier), behaviour under bead/table permutation 1e-9 (worst 2.2e-12), 1e-6 with the iterative cross-association solver (converges X to 1e-10; worst 2e-12); fingerprint entries that overflow (|value| > 1e30 or non-finite, unphysical generated molecules) are skipped and counted as a class");
+    ctx.assume("documented combining rules (homo): m = sum n_i m_i, sigma^3 = sum n_i m_i sigma_i^3 / m, epsilon = sum n_i m_i eps_i / m, MW = sum n_i MW_i, mu = sum n_i mu_i, q = sum n_i q_i, kappa_ab / epsilon_k_ab / na / nb / nc summed with counts, k_ij = sum n_a n_b k_ab / sum n_a n_b; more than one polar/associating group per molecule may be rejected with IncompatibleParameters (class). Hetero EoS: one entry per (component, segment kind) with m x count, bond counts per unordered segment pair, segment k_ij only between different components; functional: one bead per listed segment in record order, bonds as listed (linear default), psi_dft default 1.5357");
+    ctx.assume("serde: 6-digit floats: to_string(from_str(to_string(r))) == to_string(r) and the second round trip is textually idempotent, behaviour identical (1e-13; 1e-9 through the GC builders whose HashMap summation order differs per call, worst 4.7e-12); 17-digit floats: serde_json without `float_roundtrip` (feos' configuration) re-reads about one third of them one ulp off, so text identity is only reported (class) and behaviour is compared to 1e-8 (worst 1.8e-11)");
+    ctx.assume("F11 (from_json_segments with a repeated query) is observed and reported under coverage.F11_from_json_segments_repeated_query_observed, not asserted; scratch files live in $VERIF_ROOT/work/c14-p<pid>/<hash of case>-t<thread>-*.json and are removed inside the case");
+    ctx.run_sampled(&PART_FILES, &decode_files, &check_files);
+    ctx.run_sampled(&PART_SHIPPED, &decode_shipped, &check_shipped);
+    ctx.run_sampled(&PART_GC, &decode_gc, &check_gc);
+    ctx.extra("F11_from_json_segments_repeated_query_observed", json!(*F11.lock().unwrap()));
+    ctx.extra("worst_gc_rule_deviation", json!(*WORST_GC.lock().unwrap()));
+    ctx.extra("worst_gc_behaviour_deviation", json!({"analytic_or_no_association": *WORST_GC_FP.lock().unwrap(), "iterative_cross_association": *WORST_GC_FP_ASSOC.lock().unwrap()}));
+    ctx.run_sampled(&PART_SERDE, &decode_serde, &check_serde);
+    ctx.extra("worst_behaviour_deviation_serde", json!({"6-digit floats": *WORST_SERDE.lock().unwrap(), "6-digit floats, GC builders": *WORST_SERDE_GC.lock().unwrap(), "17-digit floats": *WORST_SERDE_FULL.lock().unwrap()}));
+    ctx.run_lattice("files-exhaustive", exhaustive_cases(), PanicPolicy::Violation, true, &check_files);
+    ctx.extra("worst_behaviour_deviation_files", json!(*WORST_FP.lock().unwrap()));
+    remove_scratch_root();
+}
+
+pub fn replay(ctx: &Ctx, part: &str, case: &Value) -> bool {
+    let r = replay_inner(ctx, part, case);
+    remove_scratch_root();
+    r
+}
+
+fn replay_inner(ctx: &Ctx, part: &str, case: &Value) -> bool {
+    match part {
+        "files" | "files-exhaustive" => ctx.replay_case::<FilesCase>(case, &check_files),
+        "shipped" => ctx.replay_case::<ShippedCase>(case, &check_shipped),
+        "gc" => ctx.replay_case::<GcCase>(case, &check_gc),
+        "serde" => ctx.replay_case::<SerdeCase>(case, &check_serde),
+        _ => false,
+    }
 }
